@@ -12,6 +12,9 @@ import Frequenz.Model.Graph
 import Frequenz.Lemmas.Graph
 import Frequenz.Extracted.GraphLoops
 import Mathlib.Tactic.SplitIfs
+import Mathlib.Data.List.Perm.Basic
+import Mathlib.Data.List.Nodup
+import Mathlib.Data.List.Induction
 
 set_option linter.unusedTactic false
 set_option linter.unusedSimpArgs false
@@ -23,7 +26,8 @@ open Graph Extracted.Graph
 namespace S
 export Extracted.GraphLoops (isGridMeter isPvInverter isBatteryInverter isEvCharger isChp isPvMeter isBatteryMeter
   isEvChargerMeter isChpMeter isPvChain isBatteryChain isEvChargerChain isChpChain dfs meterFallbackComponents
-  isPrimaryFallbackPair mfcStep metricFallbackComponents gridFormula producerFormula consumerFormula)
+  isPrimaryFallbackPair mfcStep metricFallbackComponents gridFormula producerFormula consumerFormula
+  batteryFormulaNoFallback evFormula chpFormula pvFormula inverterBatteries batteryFormula)
 end S
 
 /-- the component for a node at a place -/
@@ -1449,5 +1453,1991 @@ theorem dfs_facts : DfsFacts := by
        | succ fuel ih => intro a b c; simp only [Extracted.GraphLoops.dfsLoop, refWork, ih]
      intro fuel c vis cond
      simp only [Extracted.GraphLoops.dfs, hl])
+
+/-! ## EV chargers, PV (search path) -/
+
+/-- **`EVChargerPowerFormula.generate()`** -/
+theorem ev_tie (g : Grid) (ids : List Nat) : S.evFormula g ids = Graph.evFormula ids := by
+  simp [Extracted.GraphLoops.evFormula, Graph.evFormula, nonExisting, evNoneNaz, evNaz, nazEval]
+
+/-- **`PVPowerFormula.generate()` without component ids** (search from the grid) -/
+theorem pv_dfs_tie (F : DfsFacts) (g : Grid) (hd : DistinctIds g) :
+    FormulaEquiv (S.pvFormula g true []) (Graph.pvFormula g none) := by
+  obtain ⟨hf, ha⟩ := grid_first g
+  have hc : ∀ anc n, (fun x => S.isPvChain x) (mk g anc n) = anyChain pvDfsChains (posOf g anc) n := by
+    intro anc n
+    simp [anyChain, pvDfsChains]
+  obtain ⟨d1, d2, d3⟩ := F.fromGrid g (fun x => S.isPvChain x) (anyChain pvDfsChains) hc
+    (by intro b anc; simp [chains_bat]) (by simp [chains_grid]) hd
+  have hterms := found_terms g (anyChain pvDfsChains) false pvNaz rfl
+    (fun ppos p pos c => (condSpec_anyChain pvDfsChains).pair ppos p pos c) _ d2 d3
+  simp only [Extracted.GraphLoops.pvFormula, Graph.pvFormula, Graph.pvFormulaR, hf, ha, Bool.false_eq_true, if_false,
+    if_true, List.isEmpty_nil]
+  rw [show dfsFromGrid (anyChain pvDfsChains) g = dfsFromGrid (anyChain pvDfsChains) g from rfl,
+    ← isEmpty_of_perm d1, List.isEmpty_map]
+  split
+  · simp [nonExisting, pvNoneNaz, nazEval, FormulaEquiv]
+  · simp only [FormulaEquiv, List.map_map]
+    refine (List.Perm.of_eq hterms).trans ?_
+    have := d1.map (fun f => mkTerm false pvNaz simpleNaz (primaryOf f))
+    refine this.trans (List.Perm.of_eq ?_)
+    apply List.map_congr_left
+    intro f _
+    simp [mkTerm, pvNazNoFallback, simpleNaz]
+
+/-! ## The components of the graph as a list (`graph.components()`)
+
+`enum g` lists the meters and devices of the tree in preorder, each with its ancestors; the machine translation
+quantifies over `g.comps` (grid, nodes, batteries), the model recurses over the tree: both are related through `enum`. -/
+
+mutual
+def nodesWith (anc : List Node) : Node → List (List Node × Node)
+  | .meter id cs => (anc, .meter id cs) :: nodesWithL (.meter id cs :: anc) cs
+  | .batInv id bs => [(anc, .batInv id bs)]
+  | .pvInv id => [(anc, .pvInv id)]
+  | .ev id => [(anc, .ev id)]
+  | .chp id => [(anc, .chp id)]
+def nodesWithL (anc : List Node) : List Node → List (List Node × Node)
+  | [] => []
+  | n :: ns => nodesWith anc n ++ nodesWithL anc ns
+end
+
+def enum (g : Grid) : List (List Node × Node) := nodesWithL [] g.succ
+
+/-- the component of an enumerated node -/
+abbrev cmp (g : Grid) (p : List Node × Node) : Comp := mk g p.1 p.2
+
+mutual
+theorem all_comps_node (root : Grid) (f : Comp → Bool) (hbat : ∀ b anc, f ⟨.bat b, anc, root⟩ = true) :
+    (anc : List Node) → (n : Node) → (n.comps root anc).all f = (nodesWith anc n).all (fun p => f (cmp root p))
+  | anc, .meter id cs => by
+    simp only [Node.comps, nodesWith, List.all_cons, all_comps_list root f hbat (.meter id cs :: anc) cs]
+  | anc, .batInv id bs => by
+    simp only [Node.comps, nodesWith, List.all_cons, List.all_nil, Bool.and_true, List.all_map, Function.comp_def, hbat]
+    simp
+  | anc, .pvInv id => by simp [Node.comps, nodesWith]
+  | anc, .ev id => by simp [Node.comps, nodesWith]
+  | anc, .chp id => by simp [Node.comps, nodesWith]
+theorem all_comps_list (root : Grid) (f : Comp → Bool) (hbat : ∀ b anc, f ⟨.bat b, anc, root⟩ = true) :
+    (anc : List Node) → (ns : List Node) → (compsL root anc ns).all f = (nodesWithL anc ns).all (fun p => f (cmp root p))
+  | _, [] => by simp [compsL, nodesWithL]
+  | anc, n :: ns => by
+    simp only [compsL, nodesWithL, List.all_append, all_comps_node root f hbat anc n, all_comps_list root f hbat anc ns]
+end
+
+/-- `all(f(c) for c in graph.components())` for an `f` that holds of the grid and of batteries -/
+theorem all_comps (g : Grid) (f : Comp → Bool) (hg : f g.comp = true) (hbat : ∀ b anc, f ⟨.bat b, anc, g⟩ = true) :
+    g.comps.all f = (enum g).all (fun p => f (cmp g p)) := by
+  simp only [Grid.comps, List.all_cons, hg, Bool.true_and, enum, all_comps_list g f hbat [] g.succ]
+
+mutual
+theorem filter_comps_node (root : Grid) (q : Comp → Bool) (hbat : ∀ b anc, q ⟨.bat b, anc, root⟩ = false) :
+    (anc : List Node) → (n : Node) →
+    (n.comps root anc).filter q = ((nodesWith anc n).filter (fun p => q (cmp root p))).map (cmp root)
+  | anc, .meter id cs => by
+    simp only [Node.comps, nodesWith, List.filter_cons, filter_comps_list root q hbat (.meter id cs :: anc) cs]
+    split <;> simp
+  | anc, .batInv id bs => by
+    have : (bs.map (fun b => (⟨.bat b, .batInv id bs :: anc, root⟩ : Comp))).filter q = [] := by
+      simp [List.filter_eq_nil_iff, hbat]
+    simp only [Node.comps, nodesWith, List.filter_cons, this, List.filter_nil]
+    split <;> simp
+  | anc, .pvInv id => by simp only [Node.comps, nodesWith, List.filter_cons, List.filter_nil]; split <;> simp
+  | anc, .ev id => by simp only [Node.comps, nodesWith, List.filter_cons, List.filter_nil]; split <;> simp
+  | anc, .chp id => by simp only [Node.comps, nodesWith, List.filter_cons, List.filter_nil]; split <;> simp
+theorem filter_comps_list (root : Grid) (q : Comp → Bool) (hbat : ∀ b anc, q ⟨.bat b, anc, root⟩ = false) :
+    (anc : List Node) → (ns : List Node) →
+    (compsL root anc ns).filter q = ((nodesWithL anc ns).filter (fun p => q (cmp root p))).map (cmp root)
+  | _, [] => by simp [compsL, nodesWithL]
+  | anc, n :: ns => by
+    simp only [compsL, nodesWithL, List.filter_append, List.map_append, filter_comps_node root q hbat anc n,
+      filter_comps_list root q hbat anc ns]
+end
+
+/-- `[c for c in graph.components() if q(c)]` for a `q` that rejects the grid and batteries -/
+theorem filter_comps (g : Grid) (q : Comp → Bool) (hg : q g.comp = false) (hbat : ∀ b anc, q ⟨.bat b, anc, g⟩ = false) :
+    g.comps.filter q = ((enum g).filter (fun p => q (cmp g p))).map (cmp g) := by
+  simp only [Grid.comps, List.filter_cons, hg, Bool.false_eq_true, if_false, enum, filter_comps_list g q hbat [] g.succ]
+
+mutual
+theorem enum_ids_node : (anc : List Node) → (n : Node) → (nodesWith anc n).map (fun p => p.2.id) = nodeIds n
+  | anc, .meter id cs => by
+    have := enum_ids_list (.meter id cs :: anc) cs
+    simp only [nodesWith, nodeIds, List.map_cons, this]; rfl
+  | _, .batInv _ _ => by simp [nodesWith, nodeIds, Node.id]
+  | _, .pvInv _ => by simp [nodesWith, nodeIds, Node.id]
+  | _, .ev _ => by simp [nodesWith, nodeIds, Node.id]
+  | _, .chp _ => by simp [nodesWith, nodeIds, Node.id]
+theorem enum_ids_list : (anc : List Node) → (ns : List Node) → (nodesWithL anc ns).map (fun p => p.2.id) = nodeIdsL ns
+  | _, [] => by simp [nodesWithL, nodeIdsL]
+  | anc, n :: ns => by simp [nodesWithL, nodeIdsL, enum_ids_node anc n, enum_ids_list anc ns]
+end
+
+/-- two enumerated nodes with the same id are the same (distinct ids) -/
+theorem enum_inj (g : Grid) (hn : (nodeIdsL g.succ).Nodup) {p q : List Node × Node}
+    (hp : p ∈ enum g) (hq : q ∈ enum g) (h : p.2.id = q.2.id) : p = q := by
+  have hnd : ((enum g).map (fun p => p.2.id)).Nodup := by rw [enum, enum_ids_list]; exact hn
+  exact List.inj_on_of_nodup_map hnd hp hq h
+
+theorem nodup_eraseDups : ∀ (l : List Nat), l.eraseDups.Nodup
+  | [] => by simp
+  | a :: as => by
+    rw [List.eraseDups_cons, List.nodup_cons]
+    refine ⟨?_, nodup_eraseDups _⟩
+    rw [List.mem_eraseDups]
+    simp
+termination_by l => l.length
+decreasing_by
+  simp only [List.length_cons]
+  exact Nat.lt_succ_of_le (List.length_filter_le _ _)
+
+/-- the successors of the predecessor of a node with ancestors `a` (its siblings and itself) -/
+def sibsOf (g : Grid) : List Node → List Node
+  | [] => g.succ
+  | p :: _ => p.children
+
+/-- category / id of the predecessor -/
+def pcatOf : List Node → Cat
+  | [] => .grid
+  | p :: _ => p.cat
+def pidOf (g : Grid) : List Node → Nat
+  | [] => g.id
+  | p :: _ => p.id
+
+theorem par_cat (g : Grid) (p : List Node × Node) : (firstComp (cmp g p).preds).cat = pcatOf p.1 := by
+  obtain ⟨a, n⟩ := p; cases a <;> rfl
+
+theorem par_id (g : Grid) (p : List Node × Node) : (firstComp (cmp g p).preds).id = pidOf g p.1 := by
+  obtain ⟨a, n⟩ := p; cases a <;> rfl
+
+/-- structure of the enumeration: every enumerated node is a successor of the root of the enumeration or a child of an
+enumerated meter, and all children of an enumerated meter are enumerated (with the meter as nearest ancestor) -/
+structure EnumOK (l : List (List Node × Node)) (anc : List Node) (ns : List Node) : Prop where
+  top : ∀ n ∈ ns, (anc, n) ∈ l
+  up : ∀ a n, (a, n) ∈ l → (a = anc ∧ n ∈ ns) ∨ ∃ id cs rest, a = .meter id cs :: rest ∧ n ∈ cs ∧ (rest, .meter id cs) ∈ l
+  down : ∀ id cs rest, (rest, .meter id cs) ∈ l → ∀ c ∈ cs, (.meter id cs :: rest, c) ∈ l
+
+mutual
+theorem enumOK_node : (anc : List Node) → (n : Node) → EnumOK (nodesWith anc n) anc [n]
+  | anc, .meter id cs => by
+    have ih := enumOK_list (.meter id cs :: anc) cs
+    refine ⟨by simp [nodesWith], ?_, ?_⟩
+    · intro a n h
+      simp only [nodesWith, List.mem_cons] at h
+      rcases h with h | h
+      · cases h; exact Or.inl ⟨rfl, by simp⟩
+      · rcases ih.up a n h with ⟨rfl, hn⟩ | ⟨id', cs', rest, rfl, hn, hm⟩
+        · exact Or.inr ⟨id, cs, anc, rfl, hn, by simp [nodesWith]⟩
+        · exact Or.inr ⟨id', cs', rest, rfl, hn, by simp [nodesWith, hm]⟩
+    · intro id' cs' rest h c hc
+      simp only [nodesWith, List.mem_cons] at h ⊢
+      rcases h with h | h
+      · cases h; exact Or.inr (ih.top c hc)
+      · exact Or.inr (ih.down id' cs' rest h c hc)
+  | anc, .batInv id bs => ⟨by simp [nodesWith], by intro a n h; simp [nodesWith] at h; exact Or.inl ⟨h.1, by simp [h.2]⟩,
+      by intro id' cs' rest h; simp [nodesWith] at h⟩
+  | anc, .pvInv id => ⟨by simp [nodesWith], by intro a n h; simp [nodesWith] at h; exact Or.inl ⟨h.1, by simp [h.2]⟩,
+      by intro id' cs' rest h; simp [nodesWith] at h⟩
+  | anc, .ev id => ⟨by simp [nodesWith], by intro a n h; simp [nodesWith] at h; exact Or.inl ⟨h.1, by simp [h.2]⟩,
+      by intro id' cs' rest h; simp [nodesWith] at h⟩
+  | anc, .chp id => ⟨by simp [nodesWith], by intro a n h; simp [nodesWith] at h; exact Or.inl ⟨h.1, by simp [h.2]⟩,
+      by intro id' cs' rest h; simp [nodesWith] at h⟩
+theorem enumOK_list : (anc : List Node) → (ns : List Node) → EnumOK (nodesWithL anc ns) anc ns
+  | _, [] => ⟨by simp, by intro a n h; simp [nodesWithL] at h, by intro id cs rest h; simp [nodesWithL] at h⟩
+  | anc, n :: ns => by
+    have h1 := enumOK_node anc n
+    have h2 := enumOK_list anc ns
+    refine ⟨?_, ?_, ?_⟩
+    · intro m hm
+      simp only [nodesWithL, List.mem_append]
+      rcases List.mem_cons.mp hm with h | h
+      · subst h; exact Or.inl (h1.top _ (by simp))
+      · exact Or.inr (h2.top m h)
+    · intro a m h
+      simp only [nodesWithL, List.mem_append] at h
+      rcases h with h | h
+      · rcases h1.up a m h with ⟨rfl, hn⟩ | ⟨id', cs', rest, rfl, hn, hm⟩
+        · simp at hn; subst hn; exact Or.inl ⟨rfl, by simp⟩
+        · exact Or.inr ⟨id', cs', rest, rfl, hn, by simp [nodesWithL, hm]⟩
+      · rcases h2.up a m h with ⟨rfl, hn⟩ | ⟨id', cs', rest, rfl, hn, hm⟩
+        · exact Or.inl ⟨rfl, by simp [hn]⟩
+        · exact Or.inr ⟨id', cs', rest, rfl, hn, by simp [nodesWithL, hm]⟩
+    · intro id' cs' rest h c hc
+      simp only [nodesWithL, List.mem_append] at h ⊢
+      rcases h with h | h
+      · exact Or.inl (h1.down id' cs' rest h c hc)
+      · exact Or.inr (h2.down id' cs' rest h c hc)
+end
+
+theorem enum_ok (g : Grid) : EnumOK (enum g) [] g.succ := enumOK_list [] g.succ
+
+/-- every sibling of an enumerated node is enumerated (at the same place) -/
+theorem enum_sibs (g : Grid) {a : List Node} {n : Node} (h : (a, n) ∈ enum g) :
+    n ∈ sibsOf g a ∧ ∀ c ∈ sibsOf g a, (a, c) ∈ enum g := by
+  rcases (enum_ok g).up a n h with ⟨rfl, hn⟩ | ⟨id, cs, rest, rfl, hn, hm⟩
+  · exact ⟨hn, fun c hc => (enum_ok g).top c hc⟩
+  · exact ⟨hn, fun c hc => (enum_ok g).down id cs rest hm c hc⟩
+
+theorem par_succs (g : Grid) {a : List Node} {n : Node} (h : (a, n) ∈ enum g) :
+    (firstComp (cmp g (a, n)).preds).succs = (sibsOf g a).map (mk g a) := by
+  rcases (enum_ok g).up a n h with ⟨rfl, _⟩ | ⟨id, cs, rest, rfl, _, _⟩ <;> rfl
+
+/-! ## CHP (`_chp_power_formula.py`) -/
+
+def isChpN (n : Node) : Bool := n.cat == Cat.chp
+
+theorem isChpN_eq (n : Node) : isChpN n = isChpNode n := rfl
+
+/-- what the CHP generator tests for every component, in terms of the place of the node -/
+def chpOk (g : Grid) (p : List Node × Node) : Bool :=
+  ((pcatOf p.1 == Cat.meter) || !(isChpN p.2)) && (!(isChpN p.2) || (sibsOf g p.1).all isChpN)
+
+theorem all_not_chp (l : List Node) : l.all (fun c => !(isChpN c)) = !l.any isChpN := by
+  induction l with
+  | nil => rfl
+  | cons c cs ih => simp [List.all_cons, List.any_cons, ih, Bool.not_or]
+
+theorem all_or_all (cs : List Node) :
+    cs.all (fun c => !(isChpN c) || cs.all isChpN) = !(cs.any isChpN && !cs.all isChpN) := by
+  generalize hb : cs.all isChpN = b
+  cases b
+  · simp only [Bool.or_false, Bool.not_false, Bool.and_true]
+    exact all_not_chp cs
+  · simp
+
+theorem chp_meter_false : (Cat.meter == Cat.chp) = false := rfl
+theorem chp_inv_false : (Cat.inverter == Cat.chp) = false := rfl
+theorem chp_ev_false : (Cat.evCharger == Cat.chp) = false := rfl
+
+mutual
+theorem chp_node (g : Grid) : (anc : List Node) → (n : Node) →
+    (nodesWith anc n).all (chpOk g)
+      = ((!(isChpN n) || ((pcatOf anc == Cat.meter) && (sibsOf g anc).all isChpN)) && !chpErr n)
+  | anc, .meter id cs => by
+    have ih := chp_list g (.meter id cs :: anc) cs
+    have h0 : chpOk g (anc, .meter id cs) = true := by simp [chpOk, isChpN, Node.cat, chp_meter_false]
+    have h1 : (pcatOf (Node.meter id cs :: anc) == Cat.meter) = true := rfl
+    have h2 : sibsOf g (Node.meter id cs :: anc) = cs := rfl
+    simp only [nodesWith, List.all_cons, ih, h0, h1, h2, Bool.true_and, all_or_all, chpErr]
+    have hf : (isChpN : Node → Bool) = isChpNode := rfl
+    simp [isChpN, Node.cat, chp_meter_false, hf, Bool.not_or]
+  | anc, .batInv id bs => by
+    simp [nodesWith, chpOk, isChpN, Node.cat, chpErr, chp_inv_false]
+  | anc, .pvInv id => by simp [nodesWith, chpOk, isChpN, Node.cat, chpErr, chp_inv_false]
+  | anc, .ev id => by simp [nodesWith, chpOk, isChpN, Node.cat, chpErr, chp_ev_false]
+  | anc, .chp id => by
+    simp only [nodesWith, List.all_cons, List.all_nil, chpOk, isChpN, Node.cat, chpErr, beq_self_eq_true]
+    cases pcatOf anc == Cat.meter <;> simp
+theorem chp_list (g : Grid) : (anc : List Node) → (ns : List Node) →
+    (nodesWithL anc ns).all (chpOk g)
+      = (ns.all (fun n => !(isChpN n) || ((pcatOf anc == Cat.meter) && (sibsOf g anc).all isChpN)) && !chpErrL ns)
+  | _, [] => by simp [nodesWithL, chpErrL]
+  | anc, n :: ns => by
+    simp only [nodesWithL, List.all_append, chp_node g anc n, chp_list g anc ns, List.all_cons, chpErrL, Bool.not_or]
+    generalize (!(isChpN n) || ((pcatOf anc == Cat.meter) && (sibsOf g anc).all isChpN)) = a
+    generalize ns.all (fun n => !(isChpN n) || ((pcatOf anc == Cat.meter) && (sibsOf g anc).all isChpN)) = b
+    cases a <;> cases b <;> simp
+end
+
+mutual
+theorem chpMeters_node : (anc : List Node) → (n : Node) →
+    chpMeters n = ((nodesWith anc n).filter (fun p => p.2.children.any isChpN)).map (fun p => p.2)
+  | anc, .meter id cs => by
+    have hf : (isChpN : Node → Bool) = isChpNode := rfl
+    simp only [chpMeters, nodesWith, List.filter_cons, Node.children, chpMetersL_list (.meter id cs :: anc) cs, hf]
+    by_cases h : cs.any isChpNode = true
+    · simp [h]
+    · simp [h]
+  | _, .batInv _ _ => by simp [chpMeters, nodesWith, Node.children]
+  | _, .pvInv _ => by simp [chpMeters, nodesWith, Node.children]
+  | _, .ev _ => by simp [chpMeters, nodesWith, Node.children]
+  | _, .chp _ => by simp [chpMeters, nodesWith, Node.children]
+theorem chpMetersL_list : (anc : List Node) → (ns : List Node) →
+    chpMetersL ns = ((nodesWithL anc ns).filter (fun p => p.2.children.any isChpN)).map (fun p => p.2)
+  | _, [] => by simp [chpMetersL, nodesWithL]
+  | anc, n :: ns => by
+    simp [chpMetersL, nodesWithL, chpMeters_node anc n, chpMetersL_list anc ns]
+end
+
+theorem all_congr_mem {α : Type} (l : List α) (f f' : α → Bool) (h : ∀ x ∈ l, f x = f' x) : l.all f = l.all f' := by
+  induction l with
+  | nil => rfl
+  | cons a l ih => simp [List.all_cons, h a (by simp), ih (fun x hx => h x (by simp [hx]))]
+
+theorem all_and {α : Type} (l : List α) (f f' : α → Bool) : (l.all f && l.all f') = l.all (fun x => f x && f' x) := by
+  induction l with
+  | nil => rfl
+  | cons a l ih =>
+    simp only [List.all_cons, ← ih]
+    cases f a <;> cases f' a <;> cases l.all f <;> cases l.all f' <;> rfl
+
+/-- membership (by id) in the list of the components selected by `q`, for an enumerated node -/
+theorem memIds_sel (g : Grid) (hn : (nodeIdsL g.succ).Nodup) (q : List Node × Node → Bool) {p : List Node × Node}
+    (hp : p ∈ enum g) : memIds (cmp g p) (((enum g).filter q).map (cmp g)) = q p := by
+  rw [Bool.eq_iff_iff]
+  simp only [memIds, List.any_map, List.any_eq_true, List.mem_filter, Function.comp_def, beq_iff_eq, mk_id]
+  constructor
+  · rintro ⟨r, ⟨hr, hqr⟩, hid⟩
+    have := enum_inj g hn hr hp hid
+    rw [← this]; exact hqr
+  · intro h; exact ⟨p, ⟨hp, h⟩, rfl⟩
+
+/-- **`CHPPowerFormula.generate()`** (`_get_chp_meters`: the SET of the meters in front of the CHPs) is the model's
+`chpFormula`. -/
+theorem chp_tie (g : Grid) (hd : DistinctIds g) : FormulaEquiv (S.chpFormula g) (Graph.chpFormula g) := by
+  obtain ⟨hN, _⟩ := hd
+  rw [List.nodup_cons] at hN
+  have hchps : g.comps.filter (fun x => x.cat == Cat.chp) = ((enum g).filter (fun p => isChpN p.2)).map (cmp g) :=
+    filter_comps g _ rfl (fun _ _ => rfl)
+  have hc1 : g.comps.all (fun x => ((firstComp x.preds).cat == Cat.meter) || !(x.cat == Cat.chp))
+      = (enum g).all (fun p => (pcatOf p.1 == Cat.meter) || !(isChpN p.2)) := by
+    rw [all_comps g _ (by simp [Grid.comp, Comp.cat]) (by intro b anc; simp [Comp.cat])]
+    exact all_congr_mem _ _ _ (fun p _ => by rw [par_cat]; rfl)
+  have hc2 : g.comps.all (fun x => !(x.cat == Cat.chp)
+        || ((firstComp x.preds).succs.all (fun y => memIds y (g.comps.filter (fun x => x.cat == Cat.chp)))))
+      = (enum g).all (fun p => !(isChpN p.2) || (sibsOf g p.1).all isChpN) := by
+    rw [all_comps g _ (by simp [Grid.comp, Comp.cat]) (by intro b anc; simp [Comp.cat])]
+    refine all_congr_mem _ _ _ ?_
+    intro p hp
+    obtain ⟨a, n⟩ := p
+    rw [par_succs g hp, hchps, List.all_map]
+    congr 1
+    refine all_congr_mem _ _ _ ?_
+    intro c hc
+    exact memIds_sel g hN.2 (fun p => isChpN p.2) ((enum_sibs g hp).2 c hc)
+  have hc3 : g.comps.all (fun x => !(x.cat == Cat.chp) || (x.preds.length == 1)) = true := by
+    rw [all_comps g _ (by simp [Grid.comp, Comp.cat]) (by intro b anc; simp [Comp.cat])]
+    rw [List.all_eq_true]
+    intro p _
+    obtain ⟨a, n⟩ := p
+    cases a <;> simp [Comp.preds]
+  have hcond : ((g.comps.all (fun x => ((firstComp x.preds).cat == Cat.meter) || !(x.cat == Cat.chp)))
+      && (g.comps.all (fun x => !(x.cat == Cat.chp)
+        || ((firstComp x.preds).succs.all (fun y => memIds y (g.comps.filter (fun x => x.cat == Cat.chp))))))
+      && (g.comps.all (fun x => !(x.cat == Cat.chp) || (x.preds.length == 1))))
+      = !((g.succ.any isChpNode && chpPredecessorCat != .grid) || chpErrL g.succ) := by
+    rw [hc1, hc2, hc3, Bool.and_true, all_and]
+    have := chp_list g [] g.succ
+    unfold chpOk at this
+    rw [enum, this]
+    have e : (pcatOf [] == Cat.meter) = false := rfl
+    simp only [e, Bool.false_and, Bool.or_false, all_not_chp]
+    have hf : (isChpN : Node → Bool) = isChpNode := rfl
+    have hne : (Cat.meter != Cat.grid) = true := rfl
+    simp [hf, chpPredecessorCat, Bool.not_or, hne]
+  have hall : g.comps.all (fun x => !(x.cat == Cat.chp)) = (enum g).all (fun p => !(isChpN p.2)) :=
+    all_comps g _ (by simp [Grid.comp, Comp.cat]) (by intro b anc; simp [Comp.cat])
+  have hms : chpMetersL g.succ = ((enum g).filter (fun p => p.2.children.any isChpN)).map (fun p => p.2) :=
+    chpMetersL_list [] g.succ
+  simp only [Extracted.GraphLoops.chpFormula, Graph.chpFormula, hcond]
+  by_cases herr : ((g.succ.any isChpNode && chpPredecessorCat != .grid) || chpErrL g.succ) = true
+  · simp [herr, FormulaEquiv]
+  · have herr' : ((g.succ.any isChpNode && chpPredecessorCat != .grid) || chpErrL g.succ) = false := by simpa using herr
+    have hok : ∀ p ∈ enum g, chpOk g p = true := by
+      have := hcond
+      rw [herr', hc1, hc2, hc3, Bool.and_true, all_and, Bool.not_false, List.all_eq_true] at this
+      intro p hp; simpa [chpOk] using this p hp
+    simp only [herr', Bool.not_false, if_true, Bool.false_eq_true, if_false]
+    -- the ids pushed: predecessor ids of the CHPs, without duplicates
+    have hids : (g.comps.filter (fun x => x.cat == Cat.chp)).map (fun x => (firstComp x.preds).id)
+        = ((enum g).filter (fun p => isChpN p.2)).map (fun p => pidOf g p.1) := by
+      rw [hchps, List.map_map]
+      exact List.map_congr_left (fun p _ => par_id g p)
+    have hmem : ∀ i, i ∈ ((enum g).filter (fun p => isChpN p.2)).map (fun p => pidOf g p.1)
+        ↔ i ∈ (chpMetersL g.succ).map Node.id := by
+      intro i
+      rw [hms, List.map_map]
+      simp only [List.mem_map, List.mem_filter, Function.comp_def]
+      constructor
+      · rintro ⟨⟨a, n⟩, ⟨hp, hchp⟩, rfl⟩
+        have h1 := hok _ hp
+        simp only [chpOk, hchp, Bool.not_true, Bool.or_false, Bool.true_and, Bool.false_or, Bool.and_eq_true] at h1
+        rcases (enum_ok g).up a n hp with ⟨rfl, _⟩ | ⟨id, cs, rest, rfl, hn, hm⟩
+        · simp [pcatOf] at h1
+        · refine ⟨(rest, .meter id cs), ⟨hm, ?_⟩, rfl⟩
+          simp only [Node.children, List.any_eq_true]
+          exact ⟨n, hn, hchp⟩
+      · rintro ⟨⟨rest, m⟩, ⟨hp, hany⟩, rfl⟩
+        cases m with
+        | meter id cs =>
+          simp only [Node.children, List.any_eq_true] at hany
+          obtain ⟨c, hc, hchp⟩ := hany
+          exact ⟨(.meter id cs :: rest, c), ⟨(enum_ok g).down id cs rest hp c hc, hchp⟩, rfl⟩
+        | batInv _ _ => simp [Node.children] at hany
+        | pvInv _ => simp [Node.children] at hany
+        | ev _ => simp [Node.children] at hany
+        | chp _ => simp [Node.children] at hany
+    have hnd : ((chpMetersL g.succ).map Node.id).Nodup := by
+      rw [hms, List.map_map]
+      have : ((enum g).map (fun p => p.2.id)).Nodup := by rw [enum, enum_ids_list]; exact hN.2
+      exact List.Nodup.sublist ((List.filter_sublist).map _) this
+    have hperm : ((((enum g).filter (fun p => isChpN p.2)).map (fun p => pidOf g p.1)).eraseDups).Perm
+        ((chpMetersL g.succ).map Node.id) :=
+      (List.perm_ext_iff_of_nodup (nodup_eraseDups _) hnd).mpr (fun i => by rw [List.mem_eraseDups]; exact hmem i)
+    rw [hall, hids]
+    by_cases hempty : (enum g).all (fun p => !(isChpN p.2)) = true
+    · have h1 : ((enum g).filter (fun p => isChpN p.2)) = [] := by
+        rw [List.filter_eq_nil_iff]
+        intro p hp
+        have := List.all_eq_true.mp hempty p hp
+        simpa using this
+      have h2 : chpMetersL g.succ = [] := by
+        have := hperm
+        rw [h1] at this
+        simpa using this.symm.eq_nil
+      simp [hempty, h2, nonExisting, chpNoneNaz, nazEval, FormulaEquiv]
+    · have h1 : ((enum g).filter (fun p => isChpN p.2)) ≠ [] := by
+        intro h
+        apply hempty
+        rw [List.all_eq_true]
+        intro p hp
+        have := (List.filter_eq_nil_iff.mp h) p hp
+        simpa using this
+      have h2 : (chpMetersL g.succ).isEmpty = false := by
+        cases hm' : chpMetersL g.succ with
+        | nil =>
+          exfalso
+          rw [hm'] at hperm
+          have := hperm.eq_nil
+          cases hf' : ((enum g).filter (fun p => isChpN p.2)) with
+          | nil => exact h1 hf'
+          | cons q qs => rw [hf'] at this; simp [List.eraseDups_cons] at this
+        | cons _ _ => rfl
+      simp only [hempty, Bool.false_eq_true, if_false, h2, FormulaEquiv]
+      have := hperm.map (fun i => (⟨false, i, false, []⟩ : Term))
+      refine this.trans (List.Perm.of_eq ?_)
+      rw [List.map_map]
+      apply List.map_congr_left
+      intro m _
+      simp [chpNaz, nazEval]
+
+/-! ## Battery inverters behind requested batteries (`BatteryPowerFormula`, `allow_fallback=False`) -/
+
+mutual
+theorem invsOf_enum (b : Nat) (root : Grid) : (anc : List Node) → (n : Node) →
+    n.invsOf b root anc = ((nodesWith anc n).filter (fun p => p.2.bats.contains b)).map (cmp root)
+  | anc, .meter id cs => by
+    simp [Node.invsOf, nodesWith, List.filter_cons, Node.bats, invsOfL_enum b root (.meter id cs :: anc) cs]
+  | anc, .batInv id bs => by
+    simp only [Node.invsOf, nodesWith, List.filter_cons, List.filter_nil, Node.bats]
+    split <;> simp
+  | _, .pvInv _ => by simp [Node.invsOf, nodesWith, Node.bats]
+  | _, .ev _ => by simp [Node.invsOf, nodesWith, Node.bats]
+  | _, .chp _ => by simp [Node.invsOf, nodesWith, Node.bats]
+theorem invsOfL_enum (b : Nat) (root : Grid) : (anc : List Node) → (ns : List Node) →
+    invsOfL b root anc ns = ((nodesWithL anc ns).filter (fun p => p.2.bats.contains b)).map (cmp root)
+  | _, [] => by simp [invsOfL, nodesWithL]
+  | anc, n :: ns => by
+    simp [invsOfL, nodesWithL, invsOf_enum b root anc n, invsOfL_enum b root anc ns]
+end
+
+mutual
+theorem batErr_enum (S' : List Nat) : (anc : List Node) → (n : Node) →
+    batErr S' n = (nodesWith anc n).any (fun p => batSel S' p.2 && !(p.2.bats.all (fun b => S'.contains b)))
+  | anc, .meter id cs => by
+    simp [batErr, nodesWith, batErrL_enum S' (.meter id cs :: anc) cs, batSel, Node.bats]
+  | _, .batInv _ _ => by simp [batErr, nodesWith, Node.bats]
+  | _, .pvInv _ => by simp [batErr, nodesWith, batSel, Node.bats]
+  | _, .ev _ => by simp [batErr, nodesWith, batSel, Node.bats]
+  | _, .chp _ => by simp [batErr, nodesWith, batSel, Node.bats]
+theorem batErrL_enum (S' : List Nat) : (anc : List Node) → (ns : List Node) →
+    batErrL S' ns = (nodesWithL anc ns).any (fun p => batSel S' p.2 && !(p.2.bats.all (fun b => S'.contains b)))
+  | _, [] => by simp [batErrL, nodesWithL]
+  | anc, n :: ns => by
+    simp [batErrL, nodesWithL, List.any_append, batErr_enum S' anc n, batErrL_enum S' anc ns]
+end
+
+mutual
+theorem allBats_enum : (anc : List Node) → (n : Node) → n.allBats = (nodesWith anc n).flatMap (fun p => p.2.bats)
+  | anc, .meter id cs => by simp [Node.allBats, nodesWith, Node.bats, allBatsL_enum (.meter id cs :: anc) cs]
+  | _, .batInv _ _ => by simp [Node.allBats, nodesWith, Node.bats]
+  | _, .pvInv _ => by simp [Node.allBats, nodesWith, Node.bats]
+  | _, .ev _ => by simp [Node.allBats, nodesWith, Node.bats]
+  | _, .chp _ => by simp [Node.allBats, nodesWith, Node.bats]
+theorem allBatsL_enum : (anc : List Node) → (ns : List Node) → allBatsL ns = (nodesWithL anc ns).flatMap (fun p => p.2.bats)
+  | _, [] => by simp [allBatsL, nodesWithL]
+  | anc, n :: ns => by simp [allBatsL, nodesWithL, allBats_enum anc n, allBatsL_enum anc ns]
+end
+
+/-- only battery inverters list batteries -/
+theorem batSel_eq (S' : List Nat) (n : Node) : batSel S' n = n.bats.any (fun b => S'.contains b) := by
+  cases n <;> simp [batSel, Node.bats, leafTest, Leaf.test, batteryInverterLeaf, batteryInverterTest, Node.cat, Node.ityp]
+
+theorem isBI_of_bats (root : Grid) (p : List Node × Node) (b : Nat) (h : p.2.bats.contains b = true) :
+    S.isBatteryInverter (cmp root p) = true := by
+  obtain ⟨a, n⟩ := p
+  cases n <;> simp_all [Node.bats, leafTest, Leaf.test, batteryInverterTest, Node.cat, Node.ityp]
+
+theorem succs_bats (root : Grid) (ids : List Nat) (p : List Node × Node) :
+    (cmp root p).succs.all (fun x => ids.contains x.id) = p.2.bats.all (fun b => ids.contains b)
+      ∨ p.2.bats = [] := by
+  obtain ⟨a, n⟩ := p
+  cases n with
+  | batInv id bs => left; simp [Comp.succs, Node.bats, List.all_map, Function.comp_def, Comp.id]
+  | _ => right; rfl
+
+/-- ids of the keys of a dict -/
+def keyIds (d : CDict) : List Nat := d.map (fun e => e.1.id)
+
+theorem has_keyIds (d : CDict) (k : Comp) : CDict.has d k = (keyIds d).contains k.id := by
+  simp only [CDict.has, keyIds, List.contains_eq_any_beq, List.any_map, Function.comp_def]
+  congr 1; funext e; exact Bool.beq_comm
+
+theorem keyIds_set (d : CDict) (k : Comp) (v : List Comp) :
+    keyIds (CDict.set d k v) = if (keyIds d).contains k.id then keyIds d else keyIds d ++ [k.id] := by
+  unfold CDict.set
+  rw [has_keyIds]
+  split
+  · simp only [keyIds, List.map_map]
+    apply List.map_congr_left
+    intro e _
+    simp only [Function.comp_def]
+    split <;> rfl
+  · simp [keyIds]
+
+/-- a loop that enters (or overwrites) one key per element that passes a test -/
+theorem fold_set_keys (t : Comp → Bool) (v : Comp → List Comp) : ∀ (xs : List Comp) (d : CDict), (keyIds d).Nodup →
+    (keyIds (xs.foldl (fun d x => if t x then CDict.set d x (v x) else d) d)).Nodup
+      ∧ ∀ i, i ∈ keyIds (xs.foldl (fun d x => if t x then CDict.set d x (v x) else d) d)
+          ↔ i ∈ keyIds d ∨ ∃ x ∈ xs, t x = true ∧ x.id = i := by
+  intro xs
+  induction xs with
+  | nil => intro d hd; exact ⟨hd, by simp⟩
+  | cons x xs ih =>
+    intro d hd
+    simp only [List.foldl_cons]
+    by_cases ht : t x = true
+    · simp only [ht, if_true]
+      have hk := keyIds_set d x (v x)
+      have hd' : (keyIds (CDict.set d x (v x))).Nodup := by
+        rw [hk]; split
+        · exact hd
+        · rename_i hc
+          rw [List.nodup_append]
+          refine ⟨hd, by simp, ?_⟩
+          intro a ha b hb hab
+          simp at hb; subst hb; subst hab
+          exact hc (by simpa using ha)
+      obtain ⟨i1, i2⟩ := ih _ hd'
+      refine ⟨i1, fun i => ?_⟩
+      rw [i2, hk]
+      constructor
+      · rintro (h | ⟨y, hy, hty, rfl⟩)
+        · split at h
+          · exact Or.inl h
+          · rcases List.mem_append.mp h with h' | h'
+            · exact Or.inl h'
+            · simp at h'; subst h'; exact Or.inr ⟨x, by simp, ht, rfl⟩
+        · exact Or.inr ⟨y, by simp [hy], hty, rfl⟩
+      · rintro (h | ⟨y, hy, hty, rfl⟩)
+        · left; split
+          · exact h
+          · exact List.mem_append.mpr (Or.inl h)
+        · rcases List.mem_cons.mp hy with rfl | hy'
+          · left; split
+            · rename_i hc; simpa using hc
+            · simp
+          · exact Or.inr ⟨y, hy', hty, rfl⟩
+    · have ht' : t x = false := by simpa using ht
+      simp only [ht', Bool.false_eq_true, if_false]
+      obtain ⟨i1, i2⟩ := ih d hd
+      refine ⟨i1, fun i => ?_⟩
+      rw [i2]
+      constructor
+      · rintro (h | ⟨y, hy, hty, rfl⟩)
+        · exact Or.inl h
+        · exact Or.inr ⟨y, by simp [hy], hty, rfl⟩
+      · rintro (h | ⟨y, hy, hty, rfl⟩)
+        · exact Or.inl h
+        · rcases List.mem_cons.mp hy with rfl | hy'
+          · rw [ht'] at hty; cases hty
+          · exact Or.inr ⟨y, hy', hty, rfl⟩
+
+/-- the model's account of the battery formula without fallback: the inverters that list a requested battery
+(`batSel`), an error when one of them also has a battery that is not requested (`batErrL`) -/
+def batSelRef (g : Grid) (ids : List Nat) : Formula :=
+  if ids.isEmpty then .ok [nonExisting batteryNoneNaz]
+  else if batErrL ids g.succ then .error .formulaGenerationError
+  else .ok (((enum g).filter (fun p => batSel ids p.2)).map (fun p => (⟨false, p.2.id, true, []⟩ : Term)))
+
+/-- the nested loops of `BatteryPowerFormula.generate` that fill `inv_bat_mapping` -/
+theorem fold_fold_keys (P : Nat → List Comp) (c : Nat → Bool) (t : Comp → Bool) (v : Comp → List Comp) :
+    ∀ (bs : List Nat) (d : CDict), (keyIds d).Nodup →
+    (keyIds (bs.foldl (fun d b => if c b then (P b).foldl (fun d x => if t x then CDict.set d x (v x) else d) d else d) d)).Nodup
+      ∧ ∀ i, i ∈ keyIds (bs.foldl (fun d b => if c b then (P b).foldl (fun d x => if t x then CDict.set d x (v x) else d) d else d) d)
+          ↔ i ∈ keyIds d ∨ ∃ b ∈ bs, c b = true ∧ ∃ x ∈ P b, t x = true ∧ x.id = i := by
+  intro bs
+  induction bs with
+  | nil => intro d hd; exact ⟨hd, by simp⟩
+  | cons b bs ih =>
+    intro d hd
+    simp only [List.foldl_cons]
+    by_cases hc : c b = true
+    · simp only [hc, if_true]
+      obtain ⟨f1, f2⟩ := fold_set_keys t v (P b) d hd
+      obtain ⟨i1, i2⟩ := ih _ f1
+      refine ⟨i1, fun i => ?_⟩
+      rw [i2, f2]
+      constructor
+      · rintro ((h | ⟨x, hx, htx, rfl⟩) | ⟨b', hb', hcb', x, hx, htx, rfl⟩)
+        · exact Or.inl h
+        · exact Or.inr ⟨b, by simp, hc, x, hx, htx, rfl⟩
+        · exact Or.inr ⟨b', by simp [hb'], hcb', x, hx, htx, rfl⟩
+      · rintro (h | ⟨b', hb', hcb', x, hx, htx, rfl⟩)
+        · exact Or.inl (Or.inl h)
+        · rcases List.mem_cons.mp hb' with rfl | hb''
+          · exact Or.inl (Or.inr ⟨x, hx, htx, rfl⟩)
+          · exact Or.inr ⟨b', hb'', hcb', x, hx, htx, rfl⟩
+    · have hc' : c b = false := by simpa using hc
+      simp only [hc', Bool.false_eq_true, if_false]
+      obtain ⟨i1, i2⟩ := ih d hd
+      refine ⟨i1, fun i => ?_⟩
+      rw [i2]
+      constructor
+      · rintro (h | ⟨b', hb', hcb', rest⟩)
+        · exact Or.inl h
+        · exact Or.inr ⟨b', by simp [hb'], hcb', rest⟩
+      · rintro (h | ⟨b', hb', hcb', rest⟩)
+        · exact Or.inl h
+        · rcases List.mem_cons.mp hb' with rfl | hb''
+          · rw [hc'] at hcb'; cases hcb'
+          · exact Or.inr ⟨b', hb'', hcb', rest⟩
+
+/-- **`BatteryPowerFormula.generate()` with `allow_fallback=False`** (also the fallback formula of a battery meter):
+which inverters are selected, and the error for a partially requested inverter, are the model's `batSel` / `batErrL`
+— for requested ids that are battery ids of the graph. -/
+theorem battery_sel_tie (g : Grid) (ids : List Nat) (hd : DistinctIds g) (hids : ∀ b ∈ ids, b ∈ allBatsL g.succ) :
+    FormulaEquiv (S.batteryFormulaNoFallback g ids) (batSelRef g ids) := by
+  obtain ⟨hN, _⟩ := hd
+  rw [List.nodup_cons] at hN
+  have hP : ∀ b, g.predsOfBat b = ((enum g).filter (fun p => p.2.bats.contains b)).map (cmp g) :=
+    fun b => invsOfL_enum b g [] g.succ
+  have hBI : ∀ b, ∀ x ∈ g.predsOfBat b, S.isBatteryInverter x = true := by
+    intro b x hx
+    rw [hP] at hx
+    obtain ⟨p, hp, rfl⟩ := List.mem_map.mp hx
+    exact isBI_of_bats g p b (List.mem_filter.mp hp).2
+  have hA : ∀ b ∈ ids, (g.predsOfBat b).all (fun x => !(S.isBatteryInverter x)) = false := by
+    intro b hb
+    have := hids b hb
+    rw [allBatsL_enum [] g.succ, List.mem_flatMap] at this
+    obtain ⟨p, hp, hbp⟩ := this
+    have hx : cmp g p ∈ g.predsOfBat b := by
+      rw [hP]; exact List.mem_map.mpr ⟨p, List.mem_filter.mpr ⟨hp, by simpa using hbp⟩, rfl⟩
+    rw [Bool.eq_false_iff]
+    intro hall
+    have := List.all_eq_true.mp hall _ hx
+    simp [hBI b _ hx] at this
+  have hB : ∀ b, (g.predsOfBat b).all (fun x => (x.succs.all (fun y => ids.contains y.id)) || !(S.isBatteryInverter x))
+      = ((enum g).filter (fun p => p.2.bats.contains b)).all (fun p => p.2.bats.all (fun b' => ids.contains b')) := by
+    intro b
+    rw [hP, List.all_map]
+    refine all_congr_mem _ _ _ ?_
+    intro p hp
+    have hpb := (List.mem_filter.mp hp).2
+    simp only [Function.comp_def, isBI_of_bats g p b hpb, Bool.not_true, Bool.or_false]
+    rcases succs_bats g ids p with h | h
+    · exact h
+    · rw [h] at hpb; simp at hpb
+  have hfge : ids.all (fun b => ((g.predsOfBat b).all (fun x => !(S.isBatteryInverter x)))
+        || ((g.predsOfBat b).all (fun x => (x.succs.all (fun y => ids.contains y.id)) || !(S.isBatteryInverter x))))
+      = !(batErrL ids g.succ) := by
+    have h1 : ids.all (fun b => ((g.predsOfBat b).all (fun x => !(S.isBatteryInverter x)))
+          || ((g.predsOfBat b).all (fun x => (x.succs.all (fun y => ids.contains y.id)) || !(S.isBatteryInverter x))))
+        = ids.all (fun b => ((enum g).filter (fun p => p.2.bats.contains b)).all
+            (fun p => p.2.bats.all (fun b' => ids.contains b'))) :=
+      all_congr_mem _ _ _ (fun b hb => by simp only [hA b hb, Bool.false_or, hB b])
+    rw [h1, batErrL_enum ids [] g.succ, Bool.eq_iff_iff, Bool.not_eq_true', List.all_eq_true, List.any_eq_false]
+    constructor
+    · intro h p hp hsel
+      rw [Bool.and_eq_true] at hsel
+      obtain ⟨hs1, hs2⟩ := hsel
+      rw [batSel_eq, List.any_eq_true] at hs1
+      obtain ⟨b, hb, hbi⟩ := hs1
+      have hbi' : b ∈ ids := by simpa using hbi
+      have := List.all_eq_true.mp (h b hbi') p (List.mem_filter.mpr ⟨hp, by simpa using hb⟩)
+      rw [this] at hs2; cases hs2
+    · intro h b hb
+      rw [List.all_eq_true]
+      intro p hp
+      obtain ⟨hp1, hp2⟩ := List.mem_filter.mp hp
+      have hsel : batSel ids p.2 = true := by
+        rw [batSel_eq, List.any_eq_true]
+        exact ⟨b, by simpa using hp2, by simpa using hb⟩
+      have := h p hp1
+      rw [hsel, Bool.true_and] at this
+      simpa using this
+  simp only [Extracted.GraphLoops.batteryFormulaNoFallback, Extracted.GraphLoops.inverterBatteries, batSelRef]
+  by_cases he : ids.isEmpty = true
+  · simp [he, nonExisting, batteryNoneNaz, nazEval, FormulaEquiv]
+  · simp only [he, Bool.false_eq_true, if_false]
+    have hcnf : ids.all (fun b => !((g.predsOfBat b).all (fun x => !(S.isBatteryInverter x)))) = true := by
+      rw [List.all_eq_true]; intro b hb; simp [hA b hb]
+    rw [if_pos hcnf, hfge]
+    by_cases herr : batErrL ids g.succ = true
+    · simp [herr, FormulaEquiv]
+    · have herr' : batErrL ids g.succ = false := by simpa using herr
+      simp only [herr', Bool.not_false, if_true, Bool.false_eq_true, if_false, FormulaEquiv]
+      -- the keys of the mapping
+      obtain ⟨k1, k2⟩ := fold_fold_keys (fun b => (g.predsOfBat b).filter (fun x => S.isBatteryInverter x))
+        (fun b => ((g.predsOfBat b).all (fun x => (x.succs.all (fun y => ids.contains y.id)) || !(S.isBatteryInverter x)))
+          && !((g.predsOfBat b).all (fun x => !(S.isBatteryInverter x))))
+        (fun x => x.succs.all (fun y => ids.contains y.id)) (fun x => x.succs) ids [] (by simp [keyIds])
+      have hnd : (((enum g).filter (fun p => batSel ids p.2)).map (fun p => p.2.id)).Nodup := by
+        have : ((enum g).map (fun p => p.2.id)).Nodup := by rw [enum, enum_ids_list]; exact hN.2
+        exact List.Nodup.sublist ((List.filter_sublist).map _) this
+      have hok : ∀ b ∈ ids, ∀ p ∈ enum g, p.2.bats.contains b = true → p.2.bats.all (fun b' => ids.contains b') = true := by
+        intro b hb p hp hpb
+        have := hfge
+        rw [herr', Bool.not_false, List.all_eq_true] at this
+        have h1 := this b hb
+        rw [hA b hb, Bool.false_or, hB, List.all_eq_true] at h1
+        exact h1 p (List.mem_filter.mpr ⟨hp, hpb⟩)
+      have hmem : ∀ i, i ∈ keyIds (ids.foldl (fun d b =>
+            if (((g.predsOfBat b).all (fun x => (x.succs.all (fun y => ids.contains y.id)) || !(S.isBatteryInverter x)))
+              && !((g.predsOfBat b).all (fun x => !(S.isBatteryInverter x)))) then
+              ((g.predsOfBat b).filter (fun x => S.isBatteryInverter x)).foldl
+                (fun d x => if x.succs.all (fun y => ids.contains y.id) then CDict.set d x x.succs else d) d
+            else d) [])
+          ↔ i ∈ ((enum g).filter (fun p => batSel ids p.2)).map (fun p => p.2.id) := by
+        intro i
+        rw [k2]
+        simp only [keyIds, List.map_nil, List.not_mem_nil, false_or]
+        constructor
+        · rintro ⟨b, hb, _, x, hx, _, rfl⟩
+          have hx' := (List.mem_filter.mp hx).1
+          rw [hP] at hx'
+          obtain ⟨p, hp, rfl⟩ := List.mem_map.mp hx'
+          obtain ⟨hp1, hp2⟩ := List.mem_filter.mp hp
+          refine List.mem_map.mpr ⟨p, List.mem_filter.mpr ⟨hp1, ?_⟩, rfl⟩
+          rw [batSel_eq, List.any_eq_true]
+          exact ⟨b, by simpa using hp2, by simpa using hb⟩
+        · intro hi
+          obtain ⟨p, hp, rfl⟩ := List.mem_map.mp hi
+          obtain ⟨hp1, hp2⟩ := List.mem_filter.mp hp
+          rw [batSel_eq, List.any_eq_true] at hp2
+          obtain ⟨b, hb, hbi⟩ := hp2
+          have hbi' : b ∈ ids := by simpa using hbi
+          have hpb : p.2.bats.contains b = true := by simpa using hb
+          have hx : cmp g p ∈ g.predsOfBat b := by
+            rw [hP]; exact List.mem_map.mpr ⟨p, List.mem_filter.mpr ⟨hp1, hpb⟩, rfl⟩
+          have hall := hok b hbi' p hp1 hpb
+          have hsucc : (cmp g p).succs.all (fun y => ids.contains y.id) = true := by
+            rcases succs_bats g ids p with h | h
+            · rw [h]; exact hall
+            · rw [h] at hpb; simp at hpb
+          refine ⟨b, hbi', ?_, cmp g p, List.mem_filter.mpr ⟨hx, hBI b _ hx⟩, hsucc, rfl⟩
+          rw [hA b hbi', Bool.not_false, Bool.and_true, hB, List.all_eq_true]
+          intro q hq
+          obtain ⟨hq1, hq2⟩ := List.mem_filter.mp hq
+          exact hok b hbi' q hq1 hq2
+      have hperm := (List.perm_ext_iff_of_nodup k1 hnd).mpr hmem
+      have := hperm.map (fun i => (⟨false, i, true, []⟩ : Term))
+      simp only [keyIds, List.map_map, Function.comp_def] at this
+      exact this
+
+/-! ## The whole loop of `_get_metric_fallback_components`, with pairs (pool formulas)
+
+Dicts are compared up to the order of their entries (`List.Perm`): the loop's operations respect it. -/
+
+theorem has_perm {d1 d2 : CDict} (h : d1.Perm d2) (k : Comp) : CDict.has d1 k = CDict.has d2 k := by
+  simp only [CDict.has]
+  rw [Bool.eq_iff_iff, List.any_eq_true, List.any_eq_true]
+  exact ⟨fun ⟨e, he, hk⟩ => ⟨e, h.mem_iff.mp he, hk⟩, fun ⟨e, he, hk⟩ => ⟨e, h.mem_iff.mpr he, hk⟩⟩
+
+theorem set_perm {d1 d2 : CDict} (h : d1.Perm d2) (k : Comp) (v : List Comp) :
+    (CDict.set d1 k v).Perm (CDict.set d2 k v) := by
+  simp only [CDict.set, has_perm h k]
+  split
+  · exact h.map _
+  · exact h.append_right _
+
+theorem addTo_perm {d1 d2 : CDict} (h : d1.Perm d2) (k x : Comp) :
+    (CDict.addTo d1 k x).Perm (CDict.addTo d2 k x) := by
+  simp only [CDict.addTo, has_perm h k]
+  split
+  · exact h.map _
+  · exact h.append_right _
+
+theorem keyIds_perm {d1 d2 : CDict} (h : d1.Perm d2) : (keyIds d1).Perm (keyIds d2) := h.map _
+
+theorem set_fresh (d : CDict) (k : Comp) (v : List Comp) (h : k.id ∉ keyIds d) : CDict.set d k v = d ++ [(k, v)] := by
+  have : CDict.has d k = false := by rw [has_keyIds]; simpa using h
+  simp [CDict.set, this]
+
+theorem addTo_fresh (d : CDict) (k x : Comp) (h : k.id ∉ keyIds d) : CDict.addTo d k x = d ++ [(k, [x])] := by
+  have : CDict.has d k = false := by rw [has_keyIds]; simpa using h
+  simp [CDict.addTo, this]
+
+/-- adding to the entry of `k` commutes with an unrelated entry at the end -/
+theorem addTo_append_other (d : CDict) (e : Comp × List Comp) (k x : Comp) (h : e.1.id ≠ k.id) :
+    (CDict.addTo (d ++ [e]) k x).Perm (CDict.addTo d k x ++ [e]) := by
+  have hh : CDict.has (d ++ [e]) k = CDict.has d k := by
+    rw [has_append]; simp [h]
+  simp only [CDict.addTo, hh]
+  split
+  · simp only [List.map_append, List.map_cons, List.map_nil]
+    have : (e.1.id == k.id) = false := by simpa using h
+    simp [this]
+  · simp only [List.append_assoc]
+    exact List.Perm.append_left _ (List.Perm.swap _ _ _)
+
+/-- several components added to the entry of one key -/
+def addMany (d : CDict) (k : Comp) (vs : List Comp) : CDict := vs.foldl (fun d x => CDict.addTo d k x) d
+
+theorem addMany_perm {d1 d2 : CDict} (h : d1.Perm d2) (k : Comp) : ∀ vs, (addMany d1 k vs).Perm (addMany d2 k vs) := by
+  intro vs
+  induction vs generalizing d1 d2 with
+  | nil => exact h
+  | cons x vs ih => exact ih (addTo_perm h k x)
+
+theorem addMany_append_other (k : Comp) (e : Comp × List Comp) (h : e.1.id ≠ k.id) :
+    ∀ (vs : List Comp) (d : CDict), (addMany (d ++ [e]) k vs).Perm (addMany d k vs ++ [e]) := by
+  intro vs
+  induction vs with
+  | nil => intro d; exact List.Perm.refl _
+  | cons x vs ih =>
+    intro d
+    simp only [addMany, List.foldl_cons]
+    exact (addMany_perm (addTo_append_other d e k x h) k vs).trans (ih _)
+
+theorem addMany_append_others (k : Comp) : ∀ (es : CDict), (∀ e ∈ es, e.1.id ≠ k.id) → ∀ (vs : List Comp) (d : CDict),
+    (addMany (d ++ es) k vs).Perm (addMany d k vs ++ es) := by
+  intro es
+  induction es using List.reverseRecOn with
+  | nil => intro _ vs d; simp
+  | append_singleton es e ih =>
+    intro h vs d
+    rw [← List.append_assoc]
+    refine (addMany_append_other k e (h e (by simp)) vs (d ++ es)).trans ?_
+    rw [← List.append_assoc]
+    exact List.Perm.append_right _ (ih (fun e' he' => h e' (by simp [he'])) vs d)
+
+theorem addMany_fresh (d : CDict) (k : Comp) (h : k.id ∉ keyIds d) : ∀ (x : Comp) (vs : List Comp),
+    addMany d k (x :: vs) = d ++ [(k, x :: vs)] := by
+  intro x vs
+  simp only [addMany, List.foldl_cons, addTo_fresh d k x h]
+  induction vs using List.reverseRecOn with
+  | nil => rfl
+  | append_singleton vs y ih =>
+    rw [List.foldl_append, ih]
+    simp only [List.foldl_cons, List.foldl_nil, CDict.addTo]
+    have : CDict.has (d ++ [(k, x :: vs)]) k = true := by rw [has_append]; simp
+    simp only [this, if_true, List.map_append, List.map_cons, List.map_nil, beq_self_eq_true]
+    have hd : d.map (fun e => if e.1.id == k.id then (e.1, e.2 ++ [y]) else e) = d := by
+      conv_rhs => rw [← List.map_id d]
+      apply List.map_congr_left
+      intro e he
+      have : e.1.id ≠ k.id := fun hk => h (by rw [← hk]; exact List.mem_map.mpr ⟨e, he, rfl⟩)
+      simp [this]
+    rw [hd]
+    simp
+
+section pool
+variable (g : Grid) (sel : Node → Bool)
+
+/-- the predecessor of the nodes whose ancestors are `anc` -/
+def parComp : List Node → Comp
+  | [] => g.comp
+  | m :: rest => mk g rest m
+
+theorem parComp_eq (p : List Node × Node) : firstComp (cmp g p).preds = parComp g p.1 := by
+  obtain ⟨a, n⟩ := p; cases a <;> rfl
+
+theorem parComp_id (anc : List Node) : (parComp g anc).id = pidOf g anc := by cases anc <;> rfl
+
+/-- the pairing test of `_get_metric_fallback_components` in terms of the tree: the node and its predecessor are a
+primary/fallback pair and all successors of the predecessor are selected -/
+def pairedM (p : List Node × Node) : Bool :=
+  (match p.1 with
+    | [] => false
+    | m :: rest => Graph.isPrimaryFallbackPair (posOf g rest) m p.2) && (sibsOf g p.1).all sel
+
+mutual
+/-- the entries the loop makes inside the subtree of a node (apart from what it adds to the entry of the node's
+predecessor) -/
+def wNode (anc : List Node) : Node → CDict
+  | .meter id cs =>
+    (if (cs.filter (fun c => sel c && pairedM g sel (.meter id cs :: anc, c))).isEmpty then []
+      else [(mk g anc (.meter id cs),
+        (cs.filter (fun c => sel c && pairedM g sel (.meter id cs :: anc, c))).map (mk g (.meter id cs :: anc)))])
+      ++ wList (.meter id cs :: anc) cs
+  | .batInv id bs =>
+    if sel (.batInv id bs) && !pairedM g sel (anc, .batInv id bs) then [(mk g anc (.batInv id bs), [])] else []
+  | .pvInv id => if sel (.pvInv id) && !pairedM g sel (anc, .pvInv id) then [(mk g anc (.pvInv id), [])] else []
+  | .ev id => if sel (.ev id) && !pairedM g sel (anc, .ev id) then [(mk g anc (.ev id), [])] else []
+  | .chp id => if sel (.chp id) && !pairedM g sel (anc, .chp id) then [(mk g anc (.chp id), [])] else []
+def wList (anc : List Node) : List Node → CDict
+  | [] => []
+  | n :: ns => wNode anc n ++ wList anc ns
+end
+
+/-- the selected successors that join the entry of their predecessor -/
+def pvList (anc : List Node) (ns : List Node) : List Comp :=
+  (ns.filter (fun c => sel c && pairedM g sel (anc, c))).map (mk g anc)
+
+mutual
+theorem wNode_keys : (anc : List Node) → (n : Node) → ∀ i ∈ keyIds (wNode g sel anc n), i ∈ nodeIds n
+  | anc, .meter id cs => by
+    intro i hi
+    simp only [wNode, keyIds, List.map_append, List.mem_append] at hi
+    rcases hi with h | h
+    · split at h
+      · simp at h
+      · simp at h; subst h; simp [nodeIds, Node.id]
+    · simp [nodeIds, wList_keys (.meter id cs :: anc) cs i h]
+  | anc, .batInv id bs => by intro i hi; simp only [wNode] at hi; split at hi <;> simp_all [keyIds, nodeIds, Node.id]
+  | anc, .pvInv id => by intro i hi; simp only [wNode] at hi; split at hi <;> simp_all [keyIds, nodeIds, Node.id]
+  | anc, .ev id => by intro i hi; simp only [wNode] at hi; split at hi <;> simp_all [keyIds, nodeIds, Node.id]
+  | anc, .chp id => by intro i hi; simp only [wNode] at hi; split at hi <;> simp_all [keyIds, nodeIds, Node.id]
+theorem wList_keys : (anc : List Node) → (ns : List Node) → ∀ i ∈ keyIds (wList g sel anc ns), i ∈ nodeIdsL ns
+  | _, [] => by intro i hi; simp [wList, keyIds] at hi
+  | anc, n :: ns => by
+    intro i hi
+    simp only [wList, keyIds, List.map_append, List.mem_append] at hi
+    rcases hi with h | h
+    · simp [nodeIdsL, wNode_keys anc n i h]
+    · simp [nodeIdsL, wList_keys anc ns i h]
+end
+
+variable (L : List Comp)
+variable (hsel : ∀ n, sel n = true → n.isMeter = false)
+-- what one iteration of the loop does for a selected, enumerated node
+variable (hstep : ∀ p ∈ enum g, sel p.2 = true → ∀ d : CDict,
+  S.mfcStep L d (cmp g p) = if pairedM g sel p then CDict.addTo d (parComp g p.1) (cmp g p) else CDict.set d (cmp g p) [])
+
+include hstep in
+theorem fold_perm : ∀ (l : List (List Node × Node)), (∀ p ∈ l, p ∈ enum g ∧ sel p.2 = true) →
+    ∀ (d1 d2 : CDict), d1.Perm d2 →
+    (l.foldl (fun d p => S.mfcStep L d (cmp g p)) d1).Perm (l.foldl (fun d p => S.mfcStep L d (cmp g p)) d2) := by
+  intro l
+  induction l with
+  | nil => intro _ d1 d2 h; exact h
+  | cons p l ih =>
+    intro hl d1 d2 h
+    simp only [List.foldl_cons]
+    refine ih (fun q hq => hl q (by simp [hq])) _ _ ?_
+    obtain ⟨hp1, hp2⟩ := hl p (by simp)
+    rw [hstep p hp1 hp2 d1, hstep p hp1 hp2 d2]
+    split
+    · exact addTo_perm h _ _
+    · exact set_perm h _ _
+
+theorem keyIds_addTo_subset (d : CDict) (k x : Comp) : ∀ i ∈ keyIds (CDict.addTo d k x), i ∈ keyIds d ∨ i = k.id := by
+  intro i hi
+  simp only [CDict.addTo] at hi
+  split at hi
+  · left
+    simp only [keyIds, List.map_map, List.mem_map, Function.comp_def] at hi ⊢
+    obtain ⟨e, he, rfl⟩ := hi
+    exact ⟨e, he, by split <;> rfl⟩
+  · simp only [keyIds, List.map_append, List.mem_append, List.map_cons, List.map_nil, List.mem_singleton] at hi
+    exact hi
+
+include hsel hstep in
+mutual
+theorem pool_node : (n : Node) → (anc : List Node) → (d : CDict) →
+    (∀ p ∈ nodesWith anc n, p ∈ enum g) → (nodeIds n).Nodup → (∀ i ∈ nodeIds n, i ∉ keyIds d) →
+    pidOf g anc ∉ nodeIds n →
+    (((nodesWith anc n).filter (fun p => sel p.2)).foldl (fun d p => S.mfcStep L d (cmp g p)) d).Perm
+      ((if sel n && pairedM g sel (anc, n) then CDict.addTo d (parComp g anc) (mk g anc n) else d) ++ wNode g sel anc n)
+  | .meter id cs, anc, d, he, hn, hf, hp => by
+    have hsm : sel (.meter id cs) = false := by
+      cases h : sel (.meter id cs) with
+      | false => rfl
+      | true => have := hsel _ h; simp [Node.isMeter] at this
+    simp only [nodeIds, List.nodup_cons] at hn
+    have ih := pool_list cs (.meter id cs :: anc) d
+      (fun p hp' => he p (by simp [nodesWith, hp'])) hn.2
+      (fun i hi => hf i (by simp [nodeIds, hi])) (by simpa [pidOf, Node.id] using hn.1)
+    simp only [nodesWith, List.filter_cons, hsm, Bool.false_eq_true, if_false, Bool.false_and]
+    refine ih.trans ?_
+    have hk : (parComp g (.meter id cs :: anc)).id ∉ keyIds d := by
+      rw [parComp_id]; exact hf id (by simp [nodeIds])
+    simp only [wNode, pvList]
+    cases hvs : (cs.filter (fun c => sel c && pairedM g sel (.meter id cs :: anc, c))) with
+    | nil => simp [addMany]
+    | cons c rest =>
+      simp only [List.map_cons, List.isEmpty_cons, Bool.false_eq_true, if_false]
+      rw [addMany_fresh d _ hk]
+      simp [parComp]
+  | .batInv id bs, anc, d, he, _, hf, _ => by
+    have hmem := he (anc, .batInv id bs) (by simp [nodesWith])
+    simp only [nodesWith, List.filter_cons, List.filter_nil, wNode]
+    by_cases hs : sel (.batInv id bs) = true
+    · simp only [hs, if_true, List.foldl_cons, List.foldl_nil, Bool.true_and, hstep _ hmem hs]
+      by_cases hp' : pairedM g sel (anc, .batInv id bs) = true
+      · simp [hp']
+      · have hp'' : pairedM g sel (anc, .batInv id bs) = false := by simpa using hp'
+        simp only [hp'', Bool.false_eq_true, if_false, Bool.not_false, if_true]
+        rw [set_fresh d (mk g anc (.batInv id bs)) [] (hf id (by simp [nodeIds]))]
+    · have hs' : sel (.batInv id bs) = false := by simpa using hs
+      simp [hs']
+  | .pvInv id, anc, d, he, _, hf, _ => by
+    have hmem := he (anc, .pvInv id) (by simp [nodesWith])
+    simp only [nodesWith, List.filter_cons, List.filter_nil, wNode]
+    by_cases hs : sel (.pvInv id) = true
+    · simp only [hs, if_true, List.foldl_cons, List.foldl_nil, Bool.true_and, hstep _ hmem hs]
+      by_cases hp' : pairedM g sel (anc, .pvInv id) = true
+      · simp [hp']
+      · have hp'' : pairedM g sel (anc, .pvInv id) = false := by simpa using hp'
+        simp only [hp'', Bool.false_eq_true, if_false, Bool.not_false, if_true]
+        rw [set_fresh d (mk g anc (.pvInv id)) [] (hf id (by simp [nodeIds]))]
+    · have hs' : sel (.pvInv id) = false := by simpa using hs
+      simp [hs']
+  | .ev id, anc, d, he, _, hf, _ => by
+    have hmem := he (anc, .ev id) (by simp [nodesWith])
+    simp only [nodesWith, List.filter_cons, List.filter_nil, wNode]
+    by_cases hs : sel (.ev id) = true
+    · simp only [hs, if_true, List.foldl_cons, List.foldl_nil, Bool.true_and, hstep _ hmem hs]
+      by_cases hp' : pairedM g sel (anc, .ev id) = true
+      · simp [hp']
+      · have hp'' : pairedM g sel (anc, .ev id) = false := by simpa using hp'
+        simp only [hp'', Bool.false_eq_true, if_false, Bool.not_false, if_true]
+        rw [set_fresh d (mk g anc (.ev id)) [] (hf id (by simp [nodeIds]))]
+    · have hs' : sel (.ev id) = false := by simpa using hs
+      simp [hs']
+  | .chp id, anc, d, he, _, hf, _ => by
+    have hmem := he (anc, .chp id) (by simp [nodesWith])
+    simp only [nodesWith, List.filter_cons, List.filter_nil, wNode]
+    by_cases hs : sel (.chp id) = true
+    · simp only [hs, if_true, List.foldl_cons, List.foldl_nil, Bool.true_and, hstep _ hmem hs]
+      by_cases hp' : pairedM g sel (anc, .chp id) = true
+      · simp [hp']
+      · have hp'' : pairedM g sel (anc, .chp id) = false := by simpa using hp'
+        simp only [hp'', Bool.false_eq_true, if_false, Bool.not_false, if_true]
+        rw [set_fresh d (mk g anc (.chp id)) [] (hf id (by simp [nodeIds]))]
+    · have hs' : sel (.chp id) = false := by simpa using hs
+      simp [hs']
+theorem pool_list : (ns : List Node) → (anc : List Node) → (d : CDict) →
+    (∀ p ∈ nodesWithL anc ns, p ∈ enum g) → (nodeIdsL ns).Nodup → (∀ i ∈ nodeIdsL ns, i ∉ keyIds d) →
+    pidOf g anc ∉ nodeIdsL ns →
+    (((nodesWithL anc ns).filter (fun p => sel p.2)).foldl (fun d p => S.mfcStep L d (cmp g p)) d).Perm
+      (addMany d (parComp g anc) (pvList g sel anc ns) ++ wList g sel anc ns)
+  | [], _, d, _, _, _, _ => by simp [nodesWithL, pvList, addMany, wList]
+  | n :: ns, anc, d, he, hn, hf, hp => by
+    simp only [nodeIdsL, List.nodup_append] at hn
+    obtain ⟨hn1, hn2, hdisj⟩ := hn
+    have h1 := pool_node n anc d (fun p hp' => he p (by simp [nodesWithL, hp'])) hn1
+      (fun i hi => hf i (by simp [nodeIdsL, hi])) (fun h => hp (by simp [nodeIdsL, h]))
+    simp only [nodesWithL, List.filter_append, List.foldl_append]
+    -- the dict after the subtree of n
+    let d' := (if sel n && pairedM g sel (anc, n) then CDict.addTo d (parComp g anc) (mk g anc n) else d)
+    have hl : ∀ p ∈ (nodesWithL anc ns).filter (fun p => sel p.2), p ∈ enum g ∧ sel p.2 = true := by
+      intro p hp'
+      obtain ⟨a, b⟩ := List.mem_filter.mp hp'
+      exact ⟨he p (by simp [nodesWithL, a]), b⟩
+    have h2 := fold_perm g sel L hstep _ hl _ _ h1
+    refine h2.trans ?_
+    have hfresh : ∀ i ∈ nodeIdsL ns, i ∉ keyIds (d' ++ wNode g sel anc n) := by
+      intro i hi hk
+      simp only [keyIds, List.map_append, List.mem_append] at hk
+      rcases hk with hk | hk
+      · have : i ∈ keyIds d ∨ i = (parComp g anc).id := by
+          show i ∈ keyIds d ∨ i = (parComp g anc).id
+          by_cases hc : (sel n && pairedM g sel (anc, n)) = true
+          · simp only [d', hc, if_true] at hk; exact keyIds_addTo_subset d _ _ i hk
+          · simp only [d', hc, Bool.false_eq_true, if_false] at hk; exact Or.inl hk
+        rcases this with h | h
+        · exact hf i (by simp [nodeIdsL, hi]) h
+        · rw [parComp_id] at h; subst h; exact hp (by simp [nodeIdsL, hi])
+      · exact hdisj _ (wNode_keys g sel anc n i hk) _ hi rfl
+    have h3 := pool_list ns anc (d' ++ wNode g sel anc n) (fun p hp' => he p (by simp [nodesWithL, hp'])) hn2 hfresh
+      (fun h => hp (by simp [nodeIdsL, h]))
+    refine h3.trans ?_
+    have hother : ∀ e ∈ wNode g sel anc n, e.1.id ≠ (parComp g anc).id := by
+      intro e he' h
+      have := wNode_keys g sel anc n e.1.id (List.mem_map.mpr ⟨e, he', rfl⟩)
+      rw [h, parComp_id] at this
+      exact hp (by simp [nodeIdsL, this])
+    have h4 := addMany_append_others (parComp g anc) (wNode g sel anc n) hother (pvList g sel anc ns) d'
+    refine (List.Perm.append_right _ h4).trans ?_
+    simp only [wList, List.append_assoc]
+    refine List.Perm.append_right _ (List.Perm.of_eq ?_)
+    simp only [pvList, List.filter_cons, d']
+    by_cases hc : (sel n && pairedM g sel (anc, n)) = true
+    · simp [hc, addMany]
+    · simp [hc]
+end
+
+end pool
+
+/-! ### the entries of the loop against the model's `poolTerms` -/
+
+/-- an entry (component, its fallback components) as the model has it (nodes) -/
+def toM (e : Comp × List Comp) : Node × List Node := (e.1.node, e.2.map Comp.node)
+
+theorem map_node_mk (g : Grid) (anc : List Node) (l : List Node) : (l.map (mk g anc)).map Comp.node = l := by
+  induction l with
+  | nil => rfl
+  | cons a l ih => simp [ih]
+
+section pool2
+variable (g : Grid) (sel : Node → Bool) (hsel : ∀ n, sel n = true → n.isMeter = false)
+
+include hsel in
+mutual
+theorem wNode_pool : (anc : List Node) → (n : Node) →
+    ((wNode g sel anc n).map toM).Perm
+      ((if sel n && !pairedM g sel (anc, n) then [(n, [])] else []) ++ poolWalk true sel (posOf g anc) n)
+  | anc, .meter id cs => by
+    have ih := wList_pool (.meter id cs :: anc) cs
+    have hpos : posOf g (.meter id cs :: anc) = belowMeter cs := rfl
+    have hsm : sel (.meter id cs) = false := by
+      cases h : sel (.meter id cs) with
+      | false => rfl
+      | true => have := hsel _ h; simp [Node.isMeter] at this
+    have hpm : ∀ c, pairedM g sel (.meter id cs :: anc, c)
+        = (Graph.isPrimaryFallbackPair (posOf g anc) (.meter id cs) c && (!true || cs.all sel)) := by
+      intro c; simp [pairedM, sibsOf, Node.children]
+    rw [hpos] at ih
+    simp only [wNode, poolWalk, hsm, Bool.false_and, Bool.false_eq_true, if_false, List.nil_append, List.map_append]
+    have hf : (fun c => sel c && pairedM g sel (.meter id cs :: anc, c))
+        = (fun c => sel c && (Graph.isPrimaryFallbackPair (posOf g anc) (.meter id cs) c && (!true || cs.all sel))) := by
+      funext c; rw [hpm]
+    have hf' : (fun c => sel c && !pairedM g sel (.meter id cs :: anc, c))
+        = (fun c => sel c && !(Graph.isPrimaryFallbackPair (posOf g anc) (.meter id cs) c && (!true || cs.all sel))) := by
+      funext c; rw [hpm]
+    rw [hf'] at ih
+    rw [hf]
+    have hhead : ∀ P : List Node, List.map toM (if P.isEmpty then []
+          else [(mk g anc (.meter id cs), P.map (mk g (.meter id cs :: anc)))])
+        = (if P.isEmpty then [] else [((Node.meter id cs), P)]) := by
+      intro P
+      have := map_node_mk g (.meter id cs :: anc) P
+      rw [List.map_map] at this
+      split <;> simp [toM, this]
+    rw [hhead, List.append_assoc]
+    exact List.Perm.append_left _ ih
+  | anc, .batInv id bs => by
+    simp only [wNode, poolWalk, List.append_nil]
+    split <;> simp [toM]
+  | anc, .pvInv id => by
+    simp only [wNode, poolWalk, List.append_nil]
+    split <;> simp [toM]
+  | anc, .ev id => by
+    simp only [wNode, poolWalk, List.append_nil]
+    split <;> simp [toM]
+  | anc, .chp id => by
+    simp only [wNode, poolWalk, List.append_nil]
+    split <;> simp [toM]
+theorem wList_pool : (anc : List Node) → (ns : List Node) →
+    ((wList g sel anc ns).map toM).Perm
+      ((ns.filter (fun c => sel c && !pairedM g sel (anc, c))).map (fun c => (c, ([] : List Node)))
+        ++ poolWalkL true sel (posOf g anc) ns)
+  | _, [] => by simp [wList, poolWalkL]
+  | anc, n :: ns => by
+    have h1 := wNode_pool anc n
+    have h2 := wList_pool anc ns
+    simp only [wList, List.map_append, List.filter_cons, poolWalkL]
+    refine (h1.append h2).trans ?_
+    by_cases hc : (sel n && !pairedM g sel (anc, n)) = true
+    · simp only [hc, if_true, List.map_cons, List.singleton_append, List.cons_append]
+      refine List.Perm.cons _ ?_
+      simp only [← List.append_assoc]
+      refine List.Perm.append_right _ ?_
+      exact List.perm_append_comm.append_right _ |>.trans (by rw [List.append_assoc]) |>.trans
+        (List.perm_append_comm.trans (by simp [List.append_assoc]))
+    · simp only [hc, Bool.false_eq_true, if_false, List.nil_append]
+      simp only [← List.append_assoc]
+      refine List.Perm.append_right _ ?_
+      exact List.perm_append_comm
+end
+
+end pool2
+
+theorem cat_ne_meter (n : Node) (h : n.isMeter = false) : (n.cat == Cat.meter) = false := by
+  cases n <;> simp_all [Node.isMeter, Node.cat]
+
+/-- the components the pool formulas start from: the selected nodes, in the order of `graph.components()` -/
+def selComps (g : Grid) (sel : Node → Bool) : List Comp := ((enum g).filter (fun p => sel p.2)).map (cmp g)
+
+/-- one iteration of the loop, for a selected node: the tree-level pairing test -/
+theorem hstep_of (g : Grid) (sel : Node → Bool) (hsel : ∀ n, sel n = true → n.isMeter = false)
+    (hn : (nodeIdsL g.succ).Nodup) :
+    ∀ p ∈ enum g, sel p.2 = true → ∀ d : CDict,
+      S.mfcStep (selComps g sel) d (cmp g p)
+        = if pairedM g sel p then CDict.addTo d (parComp g p.1) (cmp g p) else CDict.set d (cmp g p) [] := by
+  intro p hp hs d
+  obtain ⟨a, n⟩ := p
+  have hcat := cat_ne_meter n (hsel n hs)
+  have hsub : subsetIds (firstComp (cmp g (a, n)).preds).succs (selComps g sel) = (sibsOf g a).all sel := by
+    rw [par_succs g hp, subsetIds, List.all_map]
+    refine all_congr_mem _ _ _ ?_
+    intro c hc
+    exact memIds_sel g hn (fun p => sel p.2) ((enum_sibs g hp).2 c hc)
+  rw [mfcStep_tie, hsub]
+  simp only [fallbackPrimaryCat, hcat, Bool.false_eq_true, if_false, pairRequiresAllRequested, Bool.not_true,
+    Bool.false_or, pairedM]
+  cases a with
+  | nil =>
+    have hpair : S.isPrimaryFallbackPair (firstComp (cmp g ([], n)).preds) (cmp g ([], n)) = false := pair_grid g _
+    simp only [hpair, Bool.false_and, Bool.false_eq_true, if_false]
+  | cons m rest =>
+    have hpair : S.isPrimaryFallbackPair (firstComp (cmp g (m :: rest, n)).preds) (cmp g (m :: rest, n))
+        = Graph.isPrimaryFallbackPair (posOf g rest) m n := pair_tie g rest (m :: rest) m n
+    simp only [hpair]
+    rfl
+
+/-- **the whole loop of `_get_metric_fallback_components` on the selected components** (devices, in the order of
+`graph.components()`): up to the order of the entries it makes the entries of the model's `poolTerms`. -/
+theorem pool_loop (g : Grid) (sel : Node → Bool) (hsel : ∀ n, sel n = true → n.isMeter = false) (hd : DistinctIds g) :
+    ∃ D : CDict, (S.metricFallbackComponents (selComps g sel)).Perm D
+      ∧ (D.map toM).Perm (poolTerms true sel g)
+      ∧ D = wList g sel [] g.succ := by
+  obtain ⟨hN, _⟩ := hd
+  rw [List.nodup_cons] at hN
+  refine ⟨wList g sel [] g.succ, ?_, ?_, rfl⟩
+  · have h := pool_list g sel (selComps g sel) hsel (hstep_of g sel hsel hN.2) g.succ [] []
+      (fun p hp => hp) hN.2 (by simp [keyIds]) (by simpa [pidOf] using hN.1)
+    have hpv : pvList g sel [] g.succ = [] := by
+      simp [pvList, pairedM]
+    rw [hpv] at h
+    simp only [addMany, List.foldl_nil, List.nil_append] at h
+    simpa [Extracted.GraphLoops.metricFallbackComponents, selComps, List.foldl_map, enum] using h
+  · have h := wList_pool g sel hsel [] g.succ
+    refine h.trans (List.Perm.of_eq ?_)
+    simp only [poolTerms]
+    congr 1
+    have : (fun c => sel c && !pairedM g sel ([], c)) = sel := by
+      funext c; simp [pairedM]
+    rw [this]
+
+/-! ## PV pool (`PVPowerFormula` with component ids) -/
+
+mutual
+theorem mem_comps_node (root : Grid) : (anc : List Node) → (n : Node) → ∀ x ∈ n.comps root anc,
+    (∃ p ∈ nodesWith anc n, x = cmp root p) ∨ (∃ b anc', x = ⟨.bat b, anc', root⟩ ∧ b ∈ n.allBats)
+  | anc, .meter id cs => by
+    intro x hx
+    simp only [Node.comps, List.mem_cons] at hx
+    rcases hx with rfl | hx
+    · exact Or.inl ⟨(anc, .meter id cs), by simp [nodesWith], rfl⟩
+    · rcases mem_comps_list root (.meter id cs :: anc) cs x hx with ⟨p, hp, rfl⟩ | ⟨b, anc', rfl, hb⟩
+      · exact Or.inl ⟨p, by simp [nodesWith, hp], rfl⟩
+      · exact Or.inr ⟨b, anc', rfl, by simpa [Node.allBats] using hb⟩
+  | anc, .batInv id bs => by
+    intro x hx
+    simp only [Node.comps, List.mem_cons, List.mem_map] at hx
+    rcases hx with rfl | ⟨b, hb, rfl⟩
+    · exact Or.inl ⟨(anc, .batInv id bs), by simp [nodesWith], rfl⟩
+    · exact Or.inr ⟨b, _, rfl, by simpa [Node.allBats] using hb⟩
+  | anc, .pvInv id => by
+    intro x hx; simp [Node.comps] at hx; subst hx
+    exact Or.inl ⟨(anc, .pvInv id), by simp [nodesWith], rfl⟩
+  | anc, .ev id => by
+    intro x hx; simp [Node.comps] at hx; subst hx
+    exact Or.inl ⟨(anc, .ev id), by simp [nodesWith], rfl⟩
+  | anc, .chp id => by
+    intro x hx; simp [Node.comps] at hx; subst hx
+    exact Or.inl ⟨(anc, .chp id), by simp [nodesWith], rfl⟩
+theorem mem_comps_list (root : Grid) : (anc : List Node) → (ns : List Node) → ∀ x ∈ compsL root anc ns,
+    (∃ p ∈ nodesWithL anc ns, x = cmp root p) ∨ (∃ b anc', x = ⟨.bat b, anc', root⟩ ∧ b ∈ allBatsL ns)
+  | _, [] => by intro x hx; simp [compsL] at hx
+  | anc, n :: ns => by
+    intro x hx
+    simp only [compsL, List.mem_append] at hx
+    rcases hx with hx | hx
+    · rcases mem_comps_node root anc n x hx with ⟨p, hp, rfl⟩ | ⟨b, anc', rfl, hb⟩
+      · exact Or.inl ⟨p, by simp [nodesWithL, hp], rfl⟩
+      · exact Or.inr ⟨b, anc', rfl, by simp [allBatsL, hb]⟩
+    · rcases mem_comps_list root anc ns x hx with ⟨p, hp, rfl⟩ | ⟨b, anc', rfl, hb⟩
+      · exact Or.inl ⟨p, by simp [nodesWithL, hp], rfl⟩
+      · exact Or.inr ⟨b, anc', rfl, by simp [allBatsL, hb]⟩
+end
+
+/-- ids that name meters / devices only (not the grid, not a battery): the components with these ids -/
+theorem filter_by_ids (g : Grid) (ids : List Nat) (hg : ids.contains g.id = false)
+    (hb : ∀ b ∈ allBatsL g.succ, ids.contains b = false) :
+    g.comps.filter (fun x => ids.contains x.id)
+      = ((enum g).filter (fun p => ids.contains p.2.id)).map (cmp g) := by
+  have h1 : g.comps.filter (fun x => ids.contains x.id) = g.comps.filter (fun x => x.isNode && ids.contains x.id) := by
+    apply List.filter_congr
+    intro x hx
+    simp only [Grid.comps, List.mem_cons] at hx
+    rcases hx with rfl | hx
+    · have : ids.contains (g.comp).id = false := hg
+      simp only [Grid.comp] at this
+      simp [Comp.isNode, Grid.comp, List.contains_iff_mem] at this ⊢
+      exact this
+    · rcases mem_comps_list g [] g.succ x hx with ⟨p, _, rfl⟩ | ⟨b, anc', rfl, hb'⟩
+      · simp [Comp.isNode]
+      · have : ids.contains (⟨.bat b, anc', g⟩ : Comp).id = false := hb b hb'
+        simp [Comp.isNode, List.contains_iff_mem] at this ⊢
+        exact this
+  rw [h1, filter_comps g _ (by simp [Grid.comp, Comp.isNode]) (by intro b anc; simp [Comp.isNode])]
+  congr 1
+
+mutual
+theorem wNode_isNode (g : Grid) (sel : Node → Bool) : (anc : List Node) → (n : Node) →
+    ∀ e ∈ wNode g sel anc n, e.1.isNode = true ∧ ∀ c ∈ e.2, c.isNode = true
+  | anc, .meter id cs => by
+    intro e he
+    simp only [wNode, List.mem_append] at he
+    rcases he with he | he
+    · split at he
+      · simp at he
+      · simp at he; subst he
+        refine ⟨rfl, ?_⟩
+        intro c hc; obtain ⟨c', _, rfl⟩ := List.mem_map.mp hc; rfl
+    · exact wList_isNode g sel (.meter id cs :: anc) cs e he
+  | anc, .batInv id bs => by intro e he; simp only [wNode] at he; split at he <;> simp_all [Comp.isNode]
+  | anc, .pvInv id => by intro e he; simp only [wNode] at he; split at he <;> simp_all [Comp.isNode]
+  | anc, .ev id => by intro e he; simp only [wNode] at he; split at he <;> simp_all [Comp.isNode]
+  | anc, .chp id => by intro e he; simp only [wNode] at he; split at he <;> simp_all [Comp.isNode]
+theorem wList_isNode (g : Grid) (sel : Node → Bool) : (anc : List Node) → (ns : List Node) →
+    ∀ e ∈ wList g sel anc ns, e.1.isNode = true ∧ ∀ c ∈ e.2, c.isNode = true
+  | _, [] => by intro e he; simp [wList] at he
+  | anc, n :: ns => by
+    intro e he
+    simp only [wList, List.mem_append] at he
+    rcases he with he | he
+    · exact wNode_isNode g sel anc n e he
+    · exact wList_isNode g sel anc ns e he
+end
+
+theorem node_fields (c : Comp) (h : c.isNode = true) : c.id = c.node.id ∧ c.cat = c.node.cat := by
+  obtain ⟨k, a, r⟩ := c
+  cases k <;> simp_all [Comp.isNode, Comp.id, Comp.cat, Comp.node]
+
+/-- the term pushed for an entry, in the model's terms -/
+theorem entryTerm_toM (neg : Bool) (e : Comp × List Comp) (h : e.1.isNode = true ∧ ∀ c ∈ e.2, c.isNode = true) :
+    entryTerm neg e = mkTerm neg (.notCat .meter) (.notCat .meter) (toM e) := by
+  obtain ⟨h1, h2⟩ := h
+  obtain ⟨i1, i2⟩ := node_fields e.1 h1
+  simp only [entryTerm, mkTerm, toM, nazEval, i1, i2, List.map_map, Function.comp_def, bne]
+  congr 1
+  have : e.2.map (fun c => (c.id, !(c.cat == Cat.meter))) = e.2.map (fun c => (c.node.id, !(c.node.cat == Cat.meter))) := by
+    apply List.map_congr_left
+    intro c hc
+    obtain ⟨j1, j2⟩ := node_fields c (h2 c hc)
+    rw [j1, j2]
+  split
+  · rename_i he; simp [List.isEmpty_iff.mp he]
+  · exact this
+
+theorem set_ne_nil (d : CDict) (k : Comp) (v : List Comp) : CDict.set d k v ≠ [] := by
+  unfold CDict.set
+  split
+  · rename_i h
+    intro hm
+    have : d = [] := by simpa using hm
+    subst this; simp [CDict.has] at h
+  · simp
+
+theorem addTo_ne_nil (d : CDict) (k x : Comp) : CDict.addTo d k x ≠ [] := by
+  unfold CDict.addTo
+  split
+  · rename_i h
+    intro hm
+    have : d = [] := by simpa using hm
+    subst this; simp [CDict.has] at h
+  · simp
+
+/-- the loop never empties the dict, and yields entries as soon as there is a component -/
+theorem fold_ne_nil (g : Grid) (sel : Node → Bool) (L : List Comp)
+    (hstep : ∀ p ∈ enum g, sel p.2 = true → ∀ d : CDict,
+      S.mfcStep L d (cmp g p) = if pairedM g sel p then CDict.addTo d (parComp g p.1) (cmp g p) else CDict.set d (cmp g p) []) :
+    ∀ (l : List (List Node × Node)), (∀ p ∈ l, p ∈ enum g ∧ sel p.2 = true) → ∀ d : CDict, (d ≠ [] ∨ l ≠ []) →
+    l.foldl (fun d p => S.mfcStep L d (cmp g p)) d ≠ [] := by
+  intro l
+  induction l with
+  | nil => intro _ d h; rcases h with h | h; exact h; exact absurd rfl h
+  | cons p l ih =>
+    intro hl d _
+    simp only [List.foldl_cons]
+    refine ih (fun q hq => hl q (by simp [hq])) _ (Or.inl ?_)
+    obtain ⟨h1, h2⟩ := hl p (by simp)
+    rw [hstep p h1 h2]
+    split
+    · exact addTo_ne_nil _ _ _
+    · exact set_ne_nil _ _ _
+
+/-- the side condition of the pool formulas: the requested ids are ids of the pool's devices only -/
+def IdsOf (g : Grid) (ids : List Nat) (kind : Node → Bool) : Prop :=
+  ids.contains g.id = false ∧ (∀ b ∈ allBatsL g.succ, ids.contains b = false)
+    ∧ ∀ p ∈ enum g, ids.contains p.2.id = true → kind p.2 = true
+
+/-- **`PVPowerFormula.generate()` with component ids** (`PVPool`, also for a part of the inverters): the components
+with the requested ids, `_get_metric_fallback_components` with its pairs, the fallback formulas — the model's
+`pvFormula g (some ids)` (`poolWalk`). -/
+theorem pv_pool_tie (g : Grid) (i : Nat) (is : List Nat) (hd : DistinctIds g) (hids : IdsOf g (i :: is) Node.isPv) :
+    FormulaEquiv (S.pvFormula g true (i :: is)) (Graph.pvFormula g (some (i :: is))) := by
+  obtain ⟨hg, hb, hk⟩ := hids
+  have hsel : ∀ n, pvSel (i :: is) n = true → n.isMeter = false := by
+    intro n h
+    simp only [pvSel, Bool.and_eq_true] at h
+    exact leafTest_isMeter _ n h.1
+  have hL : g.comps.filter (fun x => (i :: is).contains x.id) = selComps g (pvSel (i :: is)) := by
+    rw [filter_by_ids g _ hg hb, selComps]
+    congr 1
+    apply List.filter_congr
+    intro p hp
+    simp only [pvSel, leafTest_pv]
+    by_cases hc : (i :: is).contains p.2.id = true
+    · simp [hc, hk p hp hc]
+    · have : (i :: is).contains p.2.id = false := by simpa using hc
+      simp only [this, Bool.and_false]
+  have hall : g.comps.all (fun x => !((i :: is).contains x.id)) = (selComps g (pvSel (i :: is))).isEmpty := by
+    rw [← hL, Bool.eq_iff_iff, List.all_eq_true, List.isEmpty_iff, List.filter_eq_nil_iff]
+    simp
+  obtain ⟨D, p1, p2, rfl⟩ := pool_loop g (pvSel (i :: is)) hsel hd
+  have hN := hd.1
+  rw [List.nodup_cons] at hN
+  simp only [Extracted.GraphLoops.pvFormula, Graph.pvFormula, Graph.pvFormulaR, pairRequiresAllRequested,
+    List.isEmpty_cons, Bool.false_eq_true, if_false, if_true, hall, hL]
+  have hterms : ((S.metricFallbackComponents (selComps g (pvSel (i :: is)))).map (entryTerm false)).Perm
+      ((poolTerms true (pvSel (i :: is)) g).map (mkTerm false pvNaz pvNazNoFallback)) := by
+    refine (p1.map _).trans ?_
+    have : (wList g (pvSel (i :: is)) [] g.succ).map (entryTerm false)
+        = ((wList g (pvSel (i :: is)) [] g.succ).map toM).map (mkTerm false pvNaz pvNazNoFallback) := by
+      rw [List.map_map]
+      apply List.map_congr_left
+      intro e he
+      exact entryTerm_toM false e (wList_isNode g _ [] g.succ e he)
+    rw [this]
+    exact p2.map _
+  have hemp : (selComps g (pvSel (i :: is))).isEmpty = (poolTerms true (pvSel (i :: is)) g).isEmpty := by
+    have hlen := (p1.trans (List.Perm.of_eq rfl)).length_eq
+    have hlen2 := p2.length_eq
+    rw [List.length_map] at hlen2
+    cases hs : selComps g (pvSel (i :: is)) with
+    | nil =>
+      rw [hs] at hlen
+      simp only [Extracted.GraphLoops.metricFallbackComponents, List.foldl_nil, List.length_nil] at hlen
+      have : (poolTerms true (pvSel (i :: is)) g).length = 0 := by omega
+      simp [List.length_eq_zero_iff.mp this]
+    | cons x xs =>
+      have hne : S.metricFallbackComponents (selComps g (pvSel (i :: is))) ≠ [] := by
+        have := fold_ne_nil g (pvSel (i :: is)) (selComps g (pvSel (i :: is)))
+          (hstep_of g _ hsel hN.2) ((enum g).filter (fun p => pvSel (i :: is) p.2))
+          (fun p hp => ⟨(List.mem_filter.mp hp).1, (List.mem_filter.mp hp).2⟩) [] (Or.inr (by
+            intro h
+            rw [selComps, h] at hs
+            simp at hs))
+        simpa [Extracted.GraphLoops.metricFallbackComponents, selComps, List.foldl_map] using this
+      have : (poolTerms true (pvSel (i :: is)) g) ≠ [] := by
+        intro h
+        rw [h] at hlen2
+        have : (S.metricFallbackComponents (selComps g (pvSel (i :: is)))).length = 0 := by
+          rw [hlen]; simpa using hlen2
+        exact hne (List.length_eq_zero_iff.mp this)
+      cases hpt : poolTerms true (pvSel (i :: is)) g with
+      | nil => exact absurd hpt this
+      | cons _ _ => rfl
+  rw [hemp]
+  by_cases he : (poolTerms true (pvSel (i :: is)) g).isEmpty = true
+  · simp [he, nonExisting, pvNoneNaz, nazEval, FormulaEquiv]
+  · have he' : (poolTerms true (pvSel (i :: is)) g).isEmpty = false := by simpa using he
+    simp only [he', Bool.false_eq_true, if_false, FormulaEquiv]
+    exact hterms
+
+/-! ## Battery pool (`BatteryPowerFormula` with fallbacks): which primary components are pushed -/
+
+/-- the key components of a dict -/
+def keyComps (d : CDict) : List Comp := d.map (fun e => e.1)
+
+theorem keyComps_set (d : CDict) (k : Comp) (v : List Comp) :
+    ∀ x ∈ keyComps (CDict.set d k v), x ∈ keyComps d ∨ x = k := by
+  intro x hx
+  unfold CDict.set at hx
+  split at hx
+  · left
+    simp only [keyComps, List.map_map, List.mem_map, Function.comp_def] at hx ⊢
+    obtain ⟨e, he, rfl⟩ := hx
+    exact ⟨e, he, by split <;> rfl⟩
+  · simp only [keyComps, List.map_append, List.mem_append, List.map_cons, List.map_nil, List.mem_singleton] at hx
+    exact hx
+
+theorem keyComps_addTo (d : CDict) (k y : Comp) :
+    ∀ x ∈ keyComps (CDict.addTo d k y), x ∈ keyComps d ∨ x = k := by
+  intro x hx
+  unfold CDict.addTo at hx
+  split at hx
+  · left
+    simp only [keyComps, List.map_map, List.mem_map, Function.comp_def] at hx ⊢
+    obtain ⟨e, he, rfl⟩ := hx
+    exact ⟨e, he, by split <;> rfl⟩
+  · simp only [keyComps, List.map_append, List.mem_append, List.map_cons, List.map_nil, List.mem_singleton] at hx
+    exact hx
+
+theorem keyIds_addTo (d : CDict) (k y : Comp) :
+    keyIds (CDict.addTo d k y) = if (keyIds d).contains k.id then keyIds d else keyIds d ++ [k.id] := by
+  unfold CDict.addTo
+  rw [has_keyIds]
+  split
+  · simp only [keyIds, List.map_map]
+    apply List.map_congr_left
+    intro e _
+    simp only [Function.comp_def]
+    split <;> rfl
+  · simp [keyIds]
+
+theorem keyIds_eq (d : CDict) : keyIds d = (keyComps d).map Comp.id := by simp [keyIds, keyComps]
+
+/-- the nested loops that fill `inv_bat_mapping`: every key is one of the inverters looked at -/
+theorem fold_fold_keycomps (P : Nat → List Comp) (c : Nat → Bool) (t : Comp → Bool) (v : Comp → List Comp) :
+    ∀ (bs : List Nat) (d : CDict),
+    ∀ x ∈ keyComps (bs.foldl (fun d b => if c b then (P b).foldl (fun d x => if t x then CDict.set d x (v x) else d) d else d) d),
+      x ∈ keyComps d ∨ ∃ b ∈ bs, x ∈ P b := by
+  have inner : ∀ (xs : List Comp) (d : CDict),
+      ∀ x ∈ keyComps (xs.foldl (fun d x => if t x then CDict.set d x (v x) else d) d), x ∈ keyComps d ∨ x ∈ xs := by
+    intro xs
+    induction xs with
+    | nil => intro d x hx; exact Or.inl hx
+    | cons y xs ih =>
+      intro d x hx
+      simp only [List.foldl_cons] at hx
+      rcases ih _ x hx with h | h
+      · split at h
+        · rcases keyComps_set d y (v y) x h with h' | h'
+          · exact Or.inl h'
+          · exact Or.inr (by simp [h'])
+        · exact Or.inl h
+      · exact Or.inr (by simp [h])
+  intro bs
+  induction bs with
+  | nil => intro d x hx; exact Or.inl hx
+  | cons b bs ih =>
+    intro d x hx
+    simp only [List.foldl_cons] at hx
+    rcases ih _ x hx with h | ⟨b', hb', hx'⟩
+    · split at h
+      · rcases inner (P b) d x h with h' | h'
+        · exact Or.inl h'
+        · exact Or.inr ⟨b, by simp, h'⟩
+      · exact Or.inl h
+    · exact Or.inr ⟨b', by simp [hb'], hx'⟩
+
+/-- the inverters entered into `inv_bat_mapping`: exactly the selected ones (`batSel`), each once -/
+theorem invbat_keys (g : Grid) (ids : List Nat) (hd : DistinctIds g) (hids : ∀ b ∈ ids, b ∈ allBatsL g.succ)
+    (herr' : batErrL ids g.succ = false) :
+    (keyIds (S.inverterBatteries g ids)).Nodup
+      ∧ (∀ i, i ∈ keyIds (S.inverterBatteries g ids) ↔ i ∈ ((enum g).filter (fun p => batSel ids p.2)).map (fun p => p.2.id))
+      ∧ (∀ x ∈ keyComps (S.inverterBatteries g ids), ∃ p ∈ enum g, x = cmp g p)
+      ∧ (ids.all (fun b => !((g.predsOfBat b).all (fun x => !(S.isBatteryInverter x)))) = true)
+      ∧ (ids.all (fun b => ((g.predsOfBat b).all (fun x => !(S.isBatteryInverter x)))
+          || ((g.predsOfBat b).all (fun x => (x.succs.all (fun y => ids.contains y.id)) || !(S.isBatteryInverter x)))) = true) := by
+  obtain ⟨hN, _⟩ := hd
+  rw [List.nodup_cons] at hN
+  have hP : ∀ b, g.predsOfBat b = ((enum g).filter (fun p => p.2.bats.contains b)).map (cmp g) :=
+    fun b => invsOfL_enum b g [] g.succ
+  have hBI : ∀ b, ∀ x ∈ g.predsOfBat b, S.isBatteryInverter x = true := by
+    intro b x hx
+    rw [hP] at hx
+    obtain ⟨p, hp, rfl⟩ := List.mem_map.mp hx
+    exact isBI_of_bats g p b (List.mem_filter.mp hp).2
+  have hA : ∀ b ∈ ids, (g.predsOfBat b).all (fun x => !(S.isBatteryInverter x)) = false := by
+    intro b hb
+    have := hids b hb
+    rw [allBatsL_enum [] g.succ, List.mem_flatMap] at this
+    obtain ⟨p, hp, hbp⟩ := this
+    have hx : cmp g p ∈ g.predsOfBat b := by
+      rw [hP]; exact List.mem_map.mpr ⟨p, List.mem_filter.mpr ⟨hp, by simpa using hbp⟩, rfl⟩
+    rw [Bool.eq_false_iff]
+    intro hall
+    have := List.all_eq_true.mp hall _ hx
+    simp [hBI b _ hx] at this
+  have hB : ∀ b, (g.predsOfBat b).all (fun x => (x.succs.all (fun y => ids.contains y.id)) || !(S.isBatteryInverter x))
+      = ((enum g).filter (fun p => p.2.bats.contains b)).all (fun p => p.2.bats.all (fun b' => ids.contains b')) := by
+    intro b
+    rw [hP, List.all_map]
+    refine all_congr_mem _ _ _ ?_
+    intro p hp
+    have hpb := (List.mem_filter.mp hp).2
+    simp only [Function.comp_def, isBI_of_bats g p b hpb, Bool.not_true, Bool.or_false]
+    rcases succs_bats g ids p with h | h
+    · exact h
+    · rw [h] at hpb; simp at hpb
+  have hfge : ids.all (fun b => ((g.predsOfBat b).all (fun x => !(S.isBatteryInverter x)))
+        || ((g.predsOfBat b).all (fun x => (x.succs.all (fun y => ids.contains y.id)) || !(S.isBatteryInverter x))))
+      = !(batErrL ids g.succ) := by
+    have h1 : ids.all (fun b => ((g.predsOfBat b).all (fun x => !(S.isBatteryInverter x)))
+          || ((g.predsOfBat b).all (fun x => (x.succs.all (fun y => ids.contains y.id)) || !(S.isBatteryInverter x))))
+        = ids.all (fun b => ((enum g).filter (fun p => p.2.bats.contains b)).all
+            (fun p => p.2.bats.all (fun b' => ids.contains b'))) :=
+      all_congr_mem _ _ _ (fun b hb => by simp only [hA b hb, Bool.false_or, hB b])
+    rw [h1, batErrL_enum ids [] g.succ, Bool.eq_iff_iff, Bool.not_eq_true', List.all_eq_true, List.any_eq_false]
+    constructor
+    · intro h p hp hsel
+      rw [Bool.and_eq_true] at hsel
+      obtain ⟨hs1, hs2⟩ := hsel
+      rw [batSel_eq, List.any_eq_true] at hs1
+      obtain ⟨b, hb, hbi⟩ := hs1
+      have hbi' : b ∈ ids := by simpa using hbi
+      have := List.all_eq_true.mp (h b hbi') p (List.mem_filter.mpr ⟨hp, by simpa using hb⟩)
+      rw [this] at hs2; cases hs2
+    · intro h b hb
+      rw [List.all_eq_true]
+      intro p hp
+      obtain ⟨hp1, hp2⟩ := List.mem_filter.mp hp
+      have hsel : batSel ids p.2 = true := by
+        rw [batSel_eq, List.any_eq_true]
+        exact ⟨b, by simpa using hp2, by simpa using hb⟩
+      have := h p hp1
+      rw [hsel, Bool.true_and] at this
+      simpa using this
+  have hcnf : ids.all (fun b => !((g.predsOfBat b).all (fun x => !(S.isBatteryInverter x)))) = true := by
+    rw [List.all_eq_true]; intro b hb; simp [hA b hb]
+  simp only [Extracted.GraphLoops.inverterBatteries]
+  -- the keys of the mapping
+  obtain ⟨k1, k2⟩ := fold_fold_keys (fun b => (g.predsOfBat b).filter (fun x => S.isBatteryInverter x))
+    (fun b => ((g.predsOfBat b).all (fun x => (x.succs.all (fun y => ids.contains y.id)) || !(S.isBatteryInverter x)))
+      && !((g.predsOfBat b).all (fun x => !(S.isBatteryInverter x))))
+    (fun x => x.succs.all (fun y => ids.contains y.id)) (fun x => x.succs) ids [] (by simp [keyIds])
+  have hnd : (((enum g).filter (fun p => batSel ids p.2)).map (fun p => p.2.id)).Nodup := by
+    have : ((enum g).map (fun p => p.2.id)).Nodup := by rw [enum, enum_ids_list]; exact hN.2
+    exact List.Nodup.sublist ((List.filter_sublist).map _) this
+  have hok : ∀ b ∈ ids, ∀ p ∈ enum g, p.2.bats.contains b = true → p.2.bats.all (fun b' => ids.contains b') = true := by
+    intro b hb p hp hpb
+    have := hfge
+    rw [herr', Bool.not_false, List.all_eq_true] at this
+    have h1 := this b hb
+    rw [hA b hb, Bool.false_or, hB, List.all_eq_true] at h1
+    exact h1 p (List.mem_filter.mpr ⟨hp, hpb⟩)
+  have hmem : ∀ i, i ∈ keyIds (ids.foldl (fun d b =>
+        if (((g.predsOfBat b).all (fun x => (x.succs.all (fun y => ids.contains y.id)) || !(S.isBatteryInverter x)))
+          && !((g.predsOfBat b).all (fun x => !(S.isBatteryInverter x)))) then
+          ((g.predsOfBat b).filter (fun x => S.isBatteryInverter x)).foldl
+            (fun d x => if x.succs.all (fun y => ids.contains y.id) then CDict.set d x x.succs else d) d
+        else d) [])
+      ↔ i ∈ ((enum g).filter (fun p => batSel ids p.2)).map (fun p => p.2.id) := by
+    intro i
+    rw [k2]
+    simp only [keyIds, List.map_nil, List.not_mem_nil, false_or]
+    constructor
+    · rintro ⟨b, hb, _, x, hx, _, rfl⟩
+      have hx' := (List.mem_filter.mp hx).1
+      rw [hP] at hx'
+      obtain ⟨p, hp, rfl⟩ := List.mem_map.mp hx'
+      obtain ⟨hp1, hp2⟩ := List.mem_filter.mp hp
+      refine List.mem_map.mpr ⟨p, List.mem_filter.mpr ⟨hp1, ?_⟩, rfl⟩
+      rw [batSel_eq, List.any_eq_true]
+      exact ⟨b, by simpa using hp2, by simpa using hb⟩
+    · intro hi
+      obtain ⟨p, hp, rfl⟩ := List.mem_map.mp hi
+      obtain ⟨hp1, hp2⟩ := List.mem_filter.mp hp
+      rw [batSel_eq, List.any_eq_true] at hp2
+      obtain ⟨b, hb, hbi⟩ := hp2
+      have hbi' : b ∈ ids := by simpa using hbi
+      have hpb : p.2.bats.contains b = true := by simpa using hb
+      have hx : cmp g p ∈ g.predsOfBat b := by
+        rw [hP]; exact List.mem_map.mpr ⟨p, List.mem_filter.mpr ⟨hp1, hpb⟩, rfl⟩
+      have hall := hok b hbi' p hp1 hpb
+      have hsucc : (cmp g p).succs.all (fun y => ids.contains y.id) = true := by
+        rcases succs_bats g ids p with h | h
+        · rw [h]; exact hall
+        · rw [h] at hpb; simp at hpb
+      refine ⟨b, hbi', ?_, cmp g p, List.mem_filter.mpr ⟨hx, hBI b _ hx⟩, hsucc, rfl⟩
+      rw [hA b hbi', Bool.not_false, Bool.and_true, hB, List.all_eq_true]
+      intro q hq
+      obtain ⟨hq1, hq2⟩ := List.mem_filter.mp hq
+      exact hok b hbi' q hq1 hq2
+  refine ⟨k1, hmem, ?_, hcnf, by rw [hfge, herr']; rfl⟩
+  intro x hx
+  rcases fold_fold_keycomps (fun b => (g.predsOfBat b).filter (fun x => S.isBatteryInverter x))
+      (fun b => ((g.predsOfBat b).all (fun x => (x.succs.all (fun y => ids.contains y.id)) || !(S.isBatteryInverter x)))
+        && !((g.predsOfBat b).all (fun x => !(S.isBatteryInverter x))))
+      (fun x => x.succs.all (fun y => ids.contains y.id)) (fun x => x.succs) ids [] x hx with h | ⟨b, _, hb⟩
+  · simp [keyComps] at h
+  · have := (List.mem_filter.mp hb).1
+    rw [hP] at this
+    obtain ⟨p, hp, rfl⟩ := List.mem_map.mp this
+    exact ⟨p, (List.mem_filter.mp hp).1, rfl⟩
+
+theorem memIds_perm {l1 l2 : List Comp} (h : l1.Perm l2) (x : Comp) : memIds x l1 = memIds x l2 := by
+  simp only [memIds]
+  rw [Bool.eq_iff_iff, List.any_eq_true, List.any_eq_true]
+  exact ⟨fun ⟨e, he, hk⟩ => ⟨e, h.mem_iff.mp he, hk⟩, fun ⟨e, he, hk⟩ => ⟨e, h.mem_iff.mpr he, hk⟩⟩
+
+theorem subsetIds_perm {l1 l2 : List Comp} (h : l1.Perm l2) (a : List Comp) : subsetIds a l1 = subsetIds a l2 := by
+  simp only [subsetIds]
+  exact all_congr_mem _ _ _ (fun x _ => memIds_perm h x)
+
+/-- the loop looks at the requested components as a set only -/
+theorem mfcStep_comps_perm {l1 l2 : List Comp} (h : l1.Perm l2) (d : CDict) (root : Grid) (anc : List Node) (n : Node) :
+    S.mfcStep l1 d (mk root anc n) = S.mfcStep l2 d (mk root anc n) := by
+  rw [mfcStep_tie, mfcStep_tie, subsetIds_perm h]
+
+/-- the key under which the loop files a component -/
+def keyOfC (L : List Comp) (x : Comp) : Comp :=
+  if S.isPrimaryFallbackPair (firstComp x.preds) x && subsetIds (firstComp x.preds).succs L then firstComp x.preds else x
+
+theorem keyOfC_perm {l1 l2 : List Comp} (h : l1.Perm l2) (x : Comp) : keyOfC l1 x = keyOfC l2 x := by
+  simp only [keyOfC, subsetIds_perm h]
+
+/-- one iteration for a device (not a meter): its key gets an entry, or its entry grows -/
+theorem step_device (L : List Comp) (d : CDict) (root : Grid) (anc : List Node) (n : Node) (hm : n.isMeter = false) :
+    keyIds (S.mfcStep L d (mk root anc n))
+        = (if (keyIds d).contains (keyOfC L (mk root anc n)).id then keyIds d else keyIds d ++ [(keyOfC L (mk root anc n)).id])
+      ∧ ∀ x ∈ keyComps (S.mfcStep L d (mk root anc n)), x ∈ keyComps d ∨ x = keyOfC L (mk root anc n) := by
+  rw [mfcStep_tie]
+  simp only [fallbackPrimaryCat, cat_ne_meter n hm, Bool.false_eq_true, if_false, pairRequiresAllRequested, Bool.not_true,
+    Bool.false_or, keyOfC]
+  split
+  · exact ⟨keyIds_addTo _ _ _, keyComps_addTo _ _ _⟩
+  · exact ⟨keyIds_set _ _ _, keyComps_set _ _ _⟩
+
+/-- the keys after the loop over devices, in whatever order they are visited -/
+theorem fold_keys (L : List Comp) (root : Grid) : ∀ (l : List Comp),
+    (∀ x ∈ l, ∃ anc n, x = mk root anc n ∧ n.isMeter = false) → ∀ (d : CDict), (keyIds d).Nodup →
+    (keyIds (l.foldl (S.mfcStep L) d)).Nodup
+      ∧ (∀ i, i ∈ keyIds (l.foldl (S.mfcStep L) d) ↔ i ∈ keyIds d ∨ ∃ x ∈ l, (keyOfC L x).id = i)
+      ∧ (∀ k ∈ keyComps (l.foldl (S.mfcStep L) d), k ∈ keyComps d ∨ ∃ x ∈ l, k = keyOfC L x) := by
+  intro l
+  induction l with
+  | nil => intro _ d hd; exact ⟨hd, by simp, fun k hk => Or.inl hk⟩
+  | cons y l ih =>
+    intro hl d hd
+    obtain ⟨anc, n, rfl, hm⟩ := hl y (by simp)
+    obtain ⟨s1, s2⟩ := step_device L d root anc n hm
+    have hd' : (keyIds (S.mfcStep L d (mk root anc n))).Nodup := by
+      rw [s1]; split
+      · exact hd
+      · rename_i hc
+        rw [List.nodup_append]
+        refine ⟨hd, by simp, ?_⟩
+        intro a ha b hb hab
+        simp at hb; subst hb; subst hab
+        exact hc (by simpa using ha)
+    obtain ⟨i1, i2, i3⟩ := ih (fun x hx => hl x (by simp [hx])) _ hd'
+    simp only [List.foldl_cons]
+    refine ⟨i1, ?_, ?_⟩
+    · intro i
+      rw [i2, s1]
+      constructor
+      · rintro (h | ⟨x, hx, rfl⟩)
+        · split at h
+          · exact Or.inl h
+          · rcases List.mem_append.mp h with h' | h'
+            · exact Or.inl h'
+            · simp at h'; exact Or.inr ⟨_, by simp, h'.symm⟩
+        · exact Or.inr ⟨x, by simp [hx], rfl⟩
+      · rintro (h | ⟨x, hx, rfl⟩)
+        · left; split
+          · exact h
+          · exact List.mem_append.mpr (Or.inl h)
+        · rcases List.mem_cons.mp hx with rfl | hx'
+          · left; split
+            · rename_i hc; simpa using hc
+            · simp
+          · exact Or.inr ⟨x, hx', rfl⟩
+    · intro k hk
+      rcases i3 k hk with h | ⟨x, hx, rfl⟩
+      · rcases s2 k h with h' | h'
+        · exact Or.inl h'
+        · exact Or.inr ⟨_, by simp, h'⟩
+      · exact Or.inr ⟨x, by simp [hx], rfl⟩
+
+/-- the two error conditions of `BatteryPowerFormula.generate` -/
+theorem battery_conds (g : Grid) (ids : List Nat) (hd : DistinctIds g) (hids : ∀ b ∈ ids, b ∈ allBatsL g.succ) :
+    (ids.all (fun b => !((g.predsOfBat b).all (fun x => !(S.isBatteryInverter x)))) = true)
+      ∧ (ids.all (fun b => ((g.predsOfBat b).all (fun x => !(S.isBatteryInverter x)))
+          || ((g.predsOfBat b).all (fun x => (x.succs.all (fun y => ids.contains y.id)) || !(S.isBatteryInverter x))))
+        = !(batErrL ids g.succ)) := by
+  obtain ⟨hN, _⟩ := hd
+  rw [List.nodup_cons] at hN
+  have hP : ∀ b, g.predsOfBat b = ((enum g).filter (fun p => p.2.bats.contains b)).map (cmp g) :=
+    fun b => invsOfL_enum b g [] g.succ
+  have hBI : ∀ b, ∀ x ∈ g.predsOfBat b, S.isBatteryInverter x = true := by
+    intro b x hx
+    rw [hP] at hx
+    obtain ⟨p, hp, rfl⟩ := List.mem_map.mp hx
+    exact isBI_of_bats g p b (List.mem_filter.mp hp).2
+  have hA : ∀ b ∈ ids, (g.predsOfBat b).all (fun x => !(S.isBatteryInverter x)) = false := by
+    intro b hb
+    have := hids b hb
+    rw [allBatsL_enum [] g.succ, List.mem_flatMap] at this
+    obtain ⟨p, hp, hbp⟩ := this
+    have hx : cmp g p ∈ g.predsOfBat b := by
+      rw [hP]; exact List.mem_map.mpr ⟨p, List.mem_filter.mpr ⟨hp, by simpa using hbp⟩, rfl⟩
+    rw [Bool.eq_false_iff]
+    intro hall
+    have := List.all_eq_true.mp hall _ hx
+    simp [hBI b _ hx] at this
+  have hB : ∀ b, (g.predsOfBat b).all (fun x => (x.succs.all (fun y => ids.contains y.id)) || !(S.isBatteryInverter x))
+      = ((enum g).filter (fun p => p.2.bats.contains b)).all (fun p => p.2.bats.all (fun b' => ids.contains b')) := by
+    intro b
+    rw [hP, List.all_map]
+    refine all_congr_mem _ _ _ ?_
+    intro p hp
+    have hpb := (List.mem_filter.mp hp).2
+    simp only [Function.comp_def, isBI_of_bats g p b hpb, Bool.not_true, Bool.or_false]
+    rcases succs_bats g ids p with h | h
+    · exact h
+    · rw [h] at hpb; simp at hpb
+  have hfge : ids.all (fun b => ((g.predsOfBat b).all (fun x => !(S.isBatteryInverter x)))
+        || ((g.predsOfBat b).all (fun x => (x.succs.all (fun y => ids.contains y.id)) || !(S.isBatteryInverter x))))
+      = !(batErrL ids g.succ) := by
+    have h1 : ids.all (fun b => ((g.predsOfBat b).all (fun x => !(S.isBatteryInverter x)))
+          || ((g.predsOfBat b).all (fun x => (x.succs.all (fun y => ids.contains y.id)) || !(S.isBatteryInverter x))))
+        = ids.all (fun b => ((enum g).filter (fun p => p.2.bats.contains b)).all
+            (fun p => p.2.bats.all (fun b' => ids.contains b'))) :=
+      all_congr_mem _ _ _ (fun b hb => by simp only [hA b hb, Bool.false_or, hB b])
+    rw [h1, batErrL_enum ids [] g.succ, Bool.eq_iff_iff, Bool.not_eq_true', List.all_eq_true, List.any_eq_false]
+    constructor
+    · intro h p hp hsel
+      rw [Bool.and_eq_true] at hsel
+      obtain ⟨hs1, hs2⟩ := hsel
+      rw [batSel_eq, List.any_eq_true] at hs1
+      obtain ⟨b, hb, hbi⟩ := hs1
+      have hbi' : b ∈ ids := by simpa using hbi
+      have := List.all_eq_true.mp (h b hbi') p (List.mem_filter.mpr ⟨hp, by simpa using hb⟩)
+      rw [this] at hs2; cases hs2
+    · intro h b hb
+      rw [List.all_eq_true]
+      intro p hp
+      obtain ⟨hp1, hp2⟩ := List.mem_filter.mp hp
+      have hsel : batSel ids p.2 = true := by
+        rw [batSel_eq, List.any_eq_true]
+        exact ⟨b, by simpa using hp2, by simpa using hb⟩
+      have := h p hp1
+      rw [hsel, Bool.true_and] at this
+      simpa using this
+  refine ⟨?_, hfge⟩
+  rw [List.all_eq_true]; intro b hb; simp [hA b hb]
+
+
+/-- sign, id and `nones_are_zeros` of a term -/
+def primary (t : Term) : Bool × Nat × Bool := (t.neg, t.id, t.naz)
+
+/-- equality of formulas in which primary components are pushed with which sign / `nones_are_zeros` (the fallback
+formulas attached to the terms are not compared) -/
+def FormulaEquivPrimary : Formula → Formula → Prop
+  | .ok a, .ok b => (a.map primary).Perm (b.map primary)
+  | .error e, .error e' => e = e'
+  | _, _ => False
+
+theorem keyOfC_enum (g : Grid) (L : List Comp) (p : List Node × Node) (hp : p ∈ enum g) :
+    ∃ q ∈ enum g, keyOfC L (cmp g p) = cmp g q := by
+  unfold keyOfC
+  split
+  · rename_i h
+    obtain ⟨a, n⟩ := p
+    rcases (enum_ok g).up a n hp with ⟨rfl, _⟩ | ⟨id, cs, rest, rfl, _, hm⟩
+    · rw [Bool.and_eq_true] at h
+      have : S.isPrimaryFallbackPair (firstComp (cmp g ([], n)).preds) (cmp g ([], n)) = false := pair_grid g _
+      rw [this] at h; exact absurd h.1 (by simp)
+    · exact ⟨(rest, .meter id cs), hm, rfl⟩
+  · exact ⟨p, hp, rfl⟩
+
+/-- **`BatteryPowerFormula.generate()` with fallbacks** (`BatteryPool`, also for a part of the batteries, also with
+batteries that hang on several inverters): the error conditions, and which primary components (inverters, or the
+battery meters that stand in for them — `_get_metric_fallback_components` with its pairs) are pushed with which sign and
+`nones_are_zeros`, are the model's `batteryFormula` (`batErrL`, `poolWalk`). -/
+theorem battery_primary_tie (g : Grid) (ids : List Nat) (hd : DistinctIds g) (hids : ∀ b ∈ ids, b ∈ allBatsL g.succ) :
+    FormulaEquivPrimary (S.batteryFormula g ids) (Graph.batteryFormula g ids) := by
+  obtain ⟨hcnf, hfge⟩ := battery_conds g ids hd hids
+  have hN := hd.1
+  rw [List.nodup_cons] at hN
+  simp only [Extracted.GraphLoops.batteryFormula, Graph.batteryFormula, Graph.batteryFormulaR, pairRequiresAllRequested]
+  by_cases he : ids.isEmpty = true
+  · simp [he, nonExisting, batteryNoneNaz, nazEval, FormulaEquivPrimary, primary]
+  · simp only [he, Bool.false_eq_true, if_false]
+    rw [if_pos hcnf, hfge]
+    by_cases herr : batErrL ids g.succ = true
+    · simp [herr, FormulaEquivPrimary]
+    · have herr' : batErrL ids g.succ = false := by simpa using herr
+      simp only [herr', Bool.not_false, if_true, Bool.false_eq_true, if_false, FormulaEquivPrimary]
+      obtain ⟨k1, k2, k3, -, -⟩ := invbat_keys g ids hd hids herr'
+      have hsel : ∀ n, batSel ids n = true → n.isMeter = false := by
+        intro n h
+        simp only [batSel, Bool.and_eq_true] at h
+        exact leafTest_isMeter _ n h.1
+      -- the inverters the loop starts from, and the model's selection in the order of the components
+      let LB := (S.inverterBatteries g ids).map (fun e => e.1)
+      let SC := selComps g (batSel ids)
+      have hLBid : LB.map Comp.id = keyIds (S.inverterBatteries g ids) := by simp [LB, keyIds]
+      have hSCid : SC.map Comp.id = ((enum g).filter (fun p => batSel ids p.2)).map (fun p => p.2.id) := by
+        simp [SC, selComps, List.map_map, Function.comp_def]
+      have hndE : ((enum g).map (fun p => p.2.id)).Nodup := by rw [enum, enum_ids_list]; exact hN.2
+      have hSCnd : (SC.map Comp.id).Nodup := by
+        rw [hSCid]; exact List.Nodup.sublist ((List.filter_sublist).map _) hndE
+      have hLBnd : (LB.map Comp.id).Nodup := by rw [hLBid]; exact k1
+      have hperm : LB.Perm SC := by
+        refine (List.perm_ext_iff_of_nodup (List.Nodup.of_map _ hLBnd) (List.Nodup.of_map _ hSCnd)).mpr ?_
+        intro x
+        constructor
+        · intro hx
+          obtain ⟨p, hp, rfl⟩ := k3 x (by simpa [keyComps, LB] using hx)
+          have : (cmp g p).id ∈ keyIds (S.inverterBatteries g ids) := by
+            rw [← hLBid]; exact List.mem_map.mpr ⟨_, hx, rfl⟩
+          rw [k2] at this
+          obtain ⟨q, hq, hqid⟩ := List.mem_map.mp this
+          obtain ⟨hq1, hq2⟩ := List.mem_filter.mp hq
+          have := enum_inj g hN.2 hq1 hp hqid
+          subst this
+          exact List.mem_map.mpr ⟨q, hq, rfl⟩
+        · intro hx
+          obtain ⟨p, hp, rfl⟩ := List.mem_map.mp hx
+          have : p.2.id ∈ keyIds (S.inverterBatteries g ids) := by
+            rw [k2]; exact List.mem_map.mpr ⟨p, hp, rfl⟩
+          rw [← hLBid] at this
+          obtain ⟨z, hz, hzid⟩ := List.mem_map.mp this
+          obtain ⟨q, hq, rfl⟩ := k3 z (by simpa [keyComps, LB] using hz)
+          have := enum_inj g hN.2 hq (List.mem_filter.mp hp).1 hzid
+          subst this
+          exact hz
+      -- the devices the loops run over
+      have hdev : ∀ (l : List Comp), l.Perm SC → ∀ x ∈ l, ∃ anc n, x = mk g anc n ∧ n.isMeter = false := by
+        intro l hl x hx
+        obtain ⟨p, hp, rfl⟩ := List.mem_map.mp (hl.mem_iff.mp hx)
+        exact ⟨p.1, p.2, rfl, hsel _ (List.mem_filter.mp hp).2⟩
+      obtain ⟨a1, a2, a3⟩ := fold_keys LB g LB (hdev LB hperm) [] (by simp [keyIds])
+      obtain ⟨b1, b2, b3⟩ := fold_keys SC g SC (hdev SC (List.Perm.refl _)) [] (by simp [keyIds])
+      have hkeys : (keyComps (S.metricFallbackComponents LB)).Perm (keyComps (S.metricFallbackComponents SC)) := by
+        simp only [Extracted.GraphLoops.metricFallbackComponents]
+        refine (List.perm_ext_iff_of_nodup (List.Nodup.of_map Comp.id (by rw [← keyIds_eq]; exact a1))
+          (List.Nodup.of_map Comp.id (by rw [← keyIds_eq]; exact b1))).mpr ?_
+        have key : ∀ (l1 l2 : List Comp), l1.Perm l2 → l2.Perm SC →
+            (∀ k ∈ keyComps (l1.foldl (S.mfcStep l1) []), k ∈ keyComps ([] : CDict) ∨ ∃ x ∈ l1, k = keyOfC l1 x) →
+            (∀ i, i ∈ keyIds (l2.foldl (S.mfcStep l2) []) ↔ i ∈ keyIds ([] : CDict) ∨ ∃ x ∈ l2, (keyOfC l2 x).id = i) →
+            (∀ k ∈ keyComps (l2.foldl (S.mfcStep l2) []), k ∈ keyComps ([] : CDict) ∨ ∃ x ∈ l2, k = keyOfC l2 x) →
+            ∀ k ∈ keyComps (l1.foldl (S.mfcStep l1) []), k ∈ keyComps (l2.foldl (S.mfcStep l2) []) := by
+          intro l1 l2 h12 h2 c1 c2 c3 k hk
+          rcases c1 k hk with h | ⟨x, hx, rfl⟩
+          · simp [keyComps] at h
+          · have hx2 : x ∈ l2 := h12.mem_iff.mp hx
+            have hid : (keyOfC l2 x).id ∈ keyIds (l2.foldl (S.mfcStep l2) []) := (c2 _).mpr (Or.inr ⟨x, hx2, rfl⟩)
+            rw [keyIds_eq] at hid
+            obtain ⟨z, hz, hzid⟩ := List.mem_map.mp hid
+            rcases c3 z hz with h | ⟨w, hw, rfl⟩
+            · simp [keyComps] at h
+            · obtain ⟨p, hp, rfl⟩ := List.mem_map.mp (h2.mem_iff.mp hx2)
+              obtain ⟨pw, hpw, rfl⟩ := List.mem_map.mp (h2.mem_iff.mp hw)
+              obtain ⟨q1, hq1, e1⟩ := keyOfC_enum g l2 p (List.mem_filter.mp hp).1
+              obtain ⟨q2, hq2, e2⟩ := keyOfC_enum g l2 pw (List.mem_filter.mp hpw).1
+              rw [keyOfC_perm h12, e1]
+              rw [e2] at hz
+              rw [e1, e2] at hzid
+              have := enum_inj g hN.2 hq2 hq1 hzid
+              subst this
+              exact hz
+        intro k
+        exact ⟨key LB SC hperm (List.Perm.refl _) a3 b2 b3 k, key SC LB hperm.symm hperm b3 a2 a3 k⟩
+      obtain ⟨D, p1, p2, rfl⟩ := pool_loop g (batSel ids) hsel hd
+      -- assemble
+      have hL : ((S.metricFallbackComponents LB).map (fun e =>
+            primary (⟨false, e.1.id, !(e.1.cat == Cat.meter),
+              if e.2.isEmpty then [] else fbPairs (S.batteryFormulaNoFallback g
+                ((e.2.flatMap (fun x => CDict.get (S.inverterBatteries g ids) x)).map (fun x => x.id)))⟩ : Term)))
+          = (keyComps (S.metricFallbackComponents LB)).map (fun k => (false, k.id, !(k.cat == Cat.meter))) := by
+        simp [keyComps, primary, List.map_map, Function.comp_def]
+      rw [List.map_map]
+      refine (List.Perm.of_eq hL).trans ?_
+      refine (hkeys.map _).trans ?_
+      have h3 : (keyComps (S.metricFallbackComponents SC)).Perm (keyComps (wList g (batSel ids) [] g.succ)) := p1.map _
+      refine (h3.map _).trans ?_
+      have h4 : (keyComps (wList g (batSel ids) [] g.succ)).map (fun k => (false, k.id, !(k.cat == Cat.meter)))
+          = ((wList g (batSel ids) [] g.succ).map toM).map (fun pf => primary (mkTerm false batteryNaz batteryNazNoFallback pf)) := by
+        simp only [keyComps, List.map_map]
+        apply List.map_congr_left
+        intro e he'
+        obtain ⟨i1, i2⟩ := node_fields e.1 (wList_isNode g _ [] g.succ e he').1
+        simp [primary, mkTerm, toM, batteryNaz, nazEval, i1, i2, bne]
+      rw [h4]
+      have := p2.map (fun pf => primary (mkTerm false batteryNaz batteryNazNoFallback pf))
+      refine this.trans (List.Perm.of_eq ?_)
+      rw [List.map_map]; rfl
 
 end GraphTie
